@@ -1,8 +1,2198 @@
 //! Codec / decoding / no-panic searches: C15 C16 C17
+//!
+//! Layout: the first half of this file is impl-agnostic machinery (a type-erased description of
+//! "one data type with its three codecs", bad-point generators, the generic runners of the three
+//! properties); the `search_codec!` macro at the end instantiates it for `C` (samples, companions,
+//! consumers of every generic data type) and adds the entry points that need the concrete types.
+#![allow(dead_code, unused_imports, unused_variables, unused_macros)]
+
+use crate::gen::{self, Prng};
+use crate::refs::*;
+use crate::search::Search;
+use blsful::*;
+use serde::{de::DeserializeOwned, Serialize};
+use serde_json::json;
+use std::collections::HashMap;
+use std::panic::{catch_unwind, AssertUnwindSafe};
+use std::rc::Rc;
+
+pub fn codec_catch<T>(f: impl FnOnce() -> T) -> Result<T, ()> {
+    catch_unwind(AssertUnwindSafe(f)).map_err(|_| ())
+}
+
+/// run a list of named consumers, each under catch: `(name, returned normally)`
+macro_rules! codec_consume {
+    ($( $name:literal => $body:expr ),* $(,)?) => {{
+        let mut out: Vec<(&'static str, bool)> = Vec::new();
+        $( out.push(($name, crate::search_codec::codec_catch(|| { let _ = $body; }).is_ok())); )*
+        out
+    }};
+}
+
+
+/// C15: big/little-endian codecs of one of the three scalar wrappers
+macro_rules! codec_c15_scalar_type {
+    ($rec:ident, $k:expr, $T:ident, $name:literal) => {{
+        let v = $T::<C>(bsc(&sc_be($k)));
+        let key = gen::hs($k);
+        let r = crate::search_codec::codec_catch(|| {
+            let be = v.to_be_bytes();
+            let le = v.to_le_bytes();
+            let b2: Option<$T<C>> = $T::<C>::from_be_bytes(&be).into();
+            let l2: Option<$T<C>> = $T::<C>::from_le_bytes(&le).into();
+            let mut rev = le;
+            rev.reverse();
+            (b2.as_ref() == Some(&v), l2.as_ref() == Some(&v), be == rev && be == sc_be($k), hex::encode(be), hex::encode(le))
+        });
+        match r {
+            Ok((a, b, c, be, le)) => {
+                let det = json!({"impl": CODEC_IMPL, "type": $name, "scalar": gen::hs($k), "to_be_bytes": be, "to_le_bytes": le});
+                $rec.case(concat!($name, "_be_bytes_roundtrip"), key.clone(), a, det.clone());
+                $rec.case(concat!($name, "_le_bytes_roundtrip"), key.clone(), b, det.clone());
+                $rec.case(concat!($name, "_be_is_reversed_le"), key.clone(), c, det);
+            }
+            Err(()) => $rec.case(concat!($name, "_be_le_bytes_panicked"), key.clone(), false, json!({"impl": CODEC_IMPL, "type": $name, "scalar": gen::hs($k)})),
+        }
+    }};
+}
+
+/// the three byte entry points of a scalar wrapper on a 32-byte big-endian string:
+/// Err(()) = panicked, Ok(None) = rejected, Ok(Some(is_zero)) = accepted
+macro_rules! codec_scalar_entry {
+    ($T:ident, $entry:expr, $be:expr) => {{
+        let be: [u8; 32] = $be;
+        let mut le = be;
+        le.reverse();
+        crate::search_codec::codec_catch(|| -> Option<bool> {
+            let r: Option<$T<C>> = match $entry {
+                0 => $T::<C>::try_from(&be[..]).ok(),
+                1 => $T::<C>::from_be_bytes(&be).into(),
+                2 => $T::<C>::from_le_bytes(&le).into(),
+                3 => $T::<C>::try_from(be.to_vec()).ok(),
+                4 => $T::<C>::try_from(&be.to_vec()).ok(),
+                _ => $T::<C>::try_from(be.to_vec().into_boxed_slice()).ok(),
+            };
+            r.map(|k| k.0 == <Scalar as Field>::ZERO)
+        })
+    }};
+}
+
+pub const CODEC_SCALAR_ENTRIES: [&str; 6] = ["try_from", "from_be_bytes", "from_le_bytes", "try_from_vec", "try_from_vec_ref", "try_from_box"];
+
+/// C16: zero and unreduced scalars are rejected; nothing accepted is zero
+macro_rules! codec_c16_scalar_type {
+    ($rec:ident, $rng:ident, $thorough:ident, $T:ident, $name:literal) => {{
+        let r_be = crate::search_codec::codec_r_be();
+        let mut r1 = r_be;
+        r1[31] += 1;
+        let mut r2 = r_be;
+        r2[0] += 1;
+        let mut top = [0u8; 32];
+        top[0] = 0x80;
+        let mut rshift = [0u8; 32];
+        rshift[..31].copy_from_slice(&r_be[1..]);
+        // 2r < 2^256: an importer that reduces instead of rejecting must still not return zero for it
+        let mut r_twice = [0u8; 32];
+        let mut carry = 0u16;
+        for i in (0..32).rev() {
+            let t = 2 * r_be[i] as u16 + carry;
+            r_twice[i] = t as u8;
+            carry = t >> 8;
+        }
+        let must_reject: Vec<(&str, [u8; 32])> = vec![("zero", [0u8; 32]), ("r", r_be)];
+        for (lab, be) in &must_reject {
+            for e in 0..6usize {
+                let class = format!("{}_{}_rejects_zero_and_r", $name, crate::search_codec::CODEC_SCALAR_ENTRIES[e]);
+                let det = json!({"impl": CODEC_IMPL, "type": $name, "entry": crate::search_codec::CODEC_SCALAR_ENTRIES[e], "value": lab, "big_endian": hex::encode(be)});
+                match codec_scalar_entry!($T, e, *be) {
+                    Ok(None) => $rec.case(&class, lab.to_string(), true, det),
+                    Ok(Some(z)) => {
+                        let mut d = det;
+                        d["outcome"] = json!(if z { "accepted, value is zero" } else { "accepted" });
+                        $rec.case(&class, lab.to_string(), false, d)
+                    }
+                    Err(()) => $rec.case(&format!("{class}_panicked"), lab.to_string(), false, det),
+                }
+            }
+        }
+        let mut inputs: Vec<[u8; 32]> = vec![rshift, [0u8; 32], r_be, r_twice, r1, r2, top, [0xff; 32]];
+        for i in 0..32 {
+            for b in [1u8, 0x80] {
+                let mut a = [0u8; 32];
+                a[i] = b;
+                inputs.push(a);
+            }
+        }
+        for _ in 0..(if $thorough { 512 } else { 64 }) {
+            let mut a = [0u8; 32];
+            a.copy_from_slice(&$rng.bytes(32));
+            if $rng.below(2) == 0 {
+                a[0] &= 0x3f;
+            }
+            inputs.push(a);
+        }
+        for be in &inputs {
+            for e in 0..3usize {
+                let class = format!("{}_{}_never_zero", $name, crate::search_codec::CODEC_SCALAR_ENTRIES[e]);
+                let det = json!({"impl": CODEC_IMPL, "type": $name, "entry": crate::search_codec::CODEC_SCALAR_ENTRIES[e], "big_endian": hex::encode(be)});
+                match codec_scalar_entry!($T, e, *be) {
+                    Ok(r) => $rec.case(&class, hex::encode(be), r != Some(true), det),
+                    Err(()) => $rec.case(&format!("{class}_panicked"), hex::encode(be), false, det),
+                }
+            }
+        }
+    }};
+}
+
+/// C17: 32-byte strings whose bytes OR to each of the 256 values
+macro_rules! codec_c17_scalar_type {
+    ($rec:ident, $T:ident, $name:literal) => {{
+        for b in 0..=255u8 {
+            let mut pats: Vec<(&str, [u8; 32])> = vec![];
+            let mut a = [0u8; 32];
+            a[31] = b;
+            pats.push(("last", a));
+            let mut a = [0u8; 32];
+            a[0] = b;
+            pats.push(("first", a));
+            let mut a = [0u8; 32];
+            a[5] = b & 0xf0;
+            a[20] = b & 0x0f;
+            pats.push(("split", a));
+            let mut a = [0u8; 32];
+            for (i, x) in a.iter_mut().enumerate() {
+                *x = b & (1u8 << (i % 8));
+            }
+            pats.push(("one_bit_per_byte", a));
+            pats.push(("all", [b; 32]));
+            for (lab, be) in pats {
+                for e in 0..3usize {
+                    let class = format!("{}_{}_or_value", $name, crate::search_codec::CODEC_SCALAR_ENTRIES[e]);
+                    let det = json!({"impl": CODEC_IMPL, "type": $name, "entry": crate::search_codec::CODEC_SCALAR_ENTRIES[e], "or_value": b, "pattern": lab, "big_endian": hex::encode(be)});
+                    let ok = codec_scalar_entry!($T, e, be).is_ok();
+                    $rec.case(&class, format!("{b}|{lab}"), ok, det);
+                }
+            }
+        }
+    }};
+}
+
+/// hex, or length + sha256 when long
+pub fn codec_hexs(b: &[u8]) -> String {
+    if b.len() <= 700 {
+        hex::encode(b)
+    } else {
+        format!("len:{}:sha256:{}", b.len(), hex::encode(sha256(b)))
+    }
+}
+
+pub fn codec_strs(b: &[u8]) -> String {
+    if b.len() > 1600 {
+        return format!("len:{}:sha256:{}", b.len(), hex::encode(sha256(b)));
+    }
+    match std::str::from_utf8(b) {
+        Ok(s) => s.to_string(),
+        Err(_) => format!("hex:{}", hex::encode(b)),
+    }
+}
+
+/// the group order r, big-endian
+pub fn codec_r_be() -> [u8; 32] {
+    let mut b = sc_be(&(-RScalar::ONE));
+    b[31] |= 1;
+    b
+}
+
+/// Recorder: `Search` plus a per-class cap on *recorded* failures. Every input is evaluated; the
+/// first `cap` failures of a class go to the harness (FAIL lines), further failures of the same
+/// class are only counted and reported by `finish` in one summary case, so that the bounded FAIL
+/// list of the harness shows every failing class instead of many witnesses of one.
+pub struct CodecRec<'a> {
+    pub s: &'a mut Search,
+    pub fails: HashMap<String, u32>,
+    pub suppressed: std::collections::BTreeMap<String, u32>,
+    pub cap: u32,
+    pub imp: &'static str,
+}
+
+impl<'a> CodecRec<'a> {
+    pub fn new(s: &'a mut Search, imp: &'static str, cap: u32) -> Self {
+        CodecRec { s, fails: HashMap::new(), suppressed: Default::default(), cap, imp }
+    }
+    pub fn open(&self, _class: &str) -> bool {
+        true
+    }
+    pub fn case(&mut self, class: &str, key: String, ok: bool, detail: serde_json::Value) {
+        if !ok {
+            let n = self.fails.entry(class.to_string()).or_insert(0);
+            *n += 1;
+            if *n > self.cap {
+                *self.suppressed.entry(class.to_string()).or_insert(0) += 1;
+                if std::env::var_os("CODEC_LIST_ALL_FAILURES").is_some() {
+                    eprintln!("REPEAT-FAIL {} {}", class, detail);
+                }
+                return;
+            }
+        }
+        self.s.case(class, format!("{}|{}", self.imp, key), ok, detail);
+    }
+    pub fn finish(self) {
+        if !self.suppressed.is_empty() {
+            let total: u32 = self.suppressed.values().sum();
+            eprintln!("codec[{}]: {} further failing inputs in already reported classes: {:?}", self.imp, total, self.suppressed);
+            self.s.case(
+                "codec_repeat_failures_not_listed",
+                format!("{}|suppressed", self.imp),
+                true,
+                json!({"impl": self.imp, "note": "further failing inputs of classes already reported (evaluated, not listed)", "total": total, "per_class": self.suppressed}),
+            );
+        }
+    }
+}
+
+// ---------------------------------------------------------------------------------------------
+// type-erased description of one data type
+// ---------------------------------------------------------------------------------------------
+
+pub struct CodecByteOps<T> {
+    pub to: fn(&T) -> Vec<u8>,
+    pub into: fn(T) -> Vec<u8>,
+    pub from_slice: fn(&[u8]) -> Result<T, String>,
+    pub from_vec: fn(Vec<u8>) -> Result<T, String>,
+    pub from_vec_ref: fn(&Vec<u8>) -> Result<T, String>,
+    pub from_box: fn(Box<[u8]>) -> Result<T, String>,
+}
+impl<T> Clone for CodecByteOps<T> {
+    fn clone(&self) -> Self {
+        *self
+    }
+}
+impl<T> Copy for CodecByteOps<T> {}
+
+pub fn codec_byte_ops<T>() -> CodecByteOps<T>
+where
+    T: for<'a> TryFrom<&'a [u8], Error = BlsError>
+        + TryFrom<Vec<u8>, Error = BlsError>
+        + for<'a> TryFrom<&'a Vec<u8>, Error = BlsError>
+        + TryFrom<Box<[u8]>, Error = BlsError>,
+    Vec<u8>: for<'a> From<&'a T> + From<T>,
+{
+    fn to<T>(v: &T) -> Vec<u8>
+    where
+        Vec<u8>: for<'a> From<&'a T>,
+    {
+        Vec::<u8>::from(v)
+    }
+    fn into<T>(v: T) -> Vec<u8>
+    where
+        Vec<u8>: From<T>,
+    {
+        Vec::<u8>::from(v)
+    }
+    fn from_slice<T: for<'a> TryFrom<&'a [u8], Error = BlsError>>(b: &[u8]) -> Result<T, String> {
+        T::try_from(b).map_err(|e| e.to_string())
+    }
+    fn from_vec<T: TryFrom<Vec<u8>, Error = BlsError>>(b: Vec<u8>) -> Result<T, String> {
+        T::try_from(b).map_err(|e| e.to_string())
+    }
+    fn from_vec_ref<T: for<'a> TryFrom<&'a Vec<u8>, Error = BlsError>>(b: &Vec<u8>) -> Result<T, String> {
+        T::try_from(b).map_err(|e| e.to_string())
+    }
+    fn from_box<T: TryFrom<Box<[u8]>, Error = BlsError>>(b: Box<[u8]>) -> Result<T, String> {
+        T::try_from(b).map_err(|e| e.to_string())
+    }
+    CodecByteOps {
+        to: to::<T>,
+        into: into::<T>,
+        from_slice: from_slice::<T>,
+        from_vec: from_vec::<T>,
+        from_vec_ref: from_vec_ref::<T>,
+        from_box: from_box::<T>,
+    }
+}
+
+/// one compressed point contained in a value: (is a G1 point, 48/96 bytes)
+pub type CodecPoint = (bool, Vec<u8>);
+
+pub struct CodecSample {
+    pub label: String,
+    pub bytes: Option<Vec<u8>>,
+    pub bare: Vec<u8>,
+    pub json: String,
+    pub points: Vec<CodecPoint>,
+}
+
+pub struct CodecVal {
+    /// re-encodings (bytes, bare, json) of the decoded value; None if re-encoding failed or panicked
+    pub reenc: Option<(Option<Vec<u8>>, Vec<u8>, String)>,
+    pub points: Vec<CodecPoint>,
+    /// (consumer name, returned normally)
+    pub consumed: Vec<(&'static str, bool)>,
+}
+
+pub enum CodecDec {
+    Panic,
+    Err(String),
+    Ok(CodecVal),
+}
+
+pub const CODEC_BYTES: u8 = 0;
+pub const CODEC_BARE: u8 = 1;
+pub const CODEC_JSON: u8 = 2;
+pub const CODEC_BYTES_VEC: u8 = 3;
+pub const CODEC_BYTES_VECREF: u8 = 4;
+pub const CODEC_BYTES_BOX: u8 = 5;
+
+pub fn codec_form_name(f: u8) -> &'static str {
+    match f {
+        CODEC_BYTES => "try_from_bytes",
+        CODEC_BARE => "bare_from_slice",
+        CODEC_JSON => "json_from_str",
+        CODEC_BYTES_VEC => "try_from_vec",
+        CODEC_BYTES_VECREF => "try_from_vec_ref",
+        _ => "try_from_box",
+    }
+}
+
+pub struct CodecTy {
+    pub name: &'static str,
+    pub has_bytes: bool,
+    /// byte and bare lengths depend only on (type, group)
+    pub fixed: bool,
+    /// the byte decoder accepts exactly one length
+    pub exact: bool,
+    /// the decoders parse (and must validate) the contained points
+    pub checked: bool,
+    pub samples: Vec<CodecSample>,
+    /// (form, input, run the consumers on an Ok value)
+    pub decode: Box<dyn Fn(u8, &[u8], bool) -> CodecDec>,
+    /// C15 checks of sample i: (check name, ok, note)
+    pub roundtrip: Box<dyn Fn(usize) -> Vec<(String, bool, String)>>,
+}
+
+impl CodecTy {
+    pub fn forms(&self) -> Vec<u8> {
+        if self.has_bytes {
+            vec![CODEC_BYTES, CODEC_BARE, CODEC_JSON]
+        } else {
+            vec![CODEC_BARE, CODEC_JSON]
+        }
+    }
+    pub fn enc<'a>(&self, sm: &'a CodecSample, form: u8) -> &'a [u8] {
+        match form {
+            CODEC_BARE => &sm.bare,
+            CODEC_JSON => sm.json.as_bytes(),
+            _ => sm.bytes.as_deref().unwrap_or(&[]),
+        }
+    }
+}
+
+#[allow(clippy::too_many_arguments)]
+pub fn codec_ty<T, P, K>(
+    name: &'static str,
+    fixed: bool,
+    exact: bool,
+    checked: bool,
+    ops: Option<CodecByteOps<T>>,
+    samples: Vec<(String, T)>,
+    points: P,
+    consume: K,
+) -> CodecTy
+where
+    T: Serialize + DeserializeOwned + PartialEq + Clone + 'static,
+    P: Fn(&T) -> Vec<CodecPoint> + 'static,
+    K: Fn(&T) -> Vec<(&'static str, bool)> + 'static,
+{
+    let points = Rc::new(points);
+    let mut smp = Vec::new();
+    for (label, v) in &samples {
+        let bytes = ops.and_then(|o| codec_catch(|| (o.to)(v)).ok());
+        let bare = codec_catch(|| serde_bare::to_vec(v).ok()).ok().flatten().unwrap_or_default();
+        let json = codec_catch(|| serde_json::to_string(v).ok()).ok().flatten().unwrap_or_default();
+        let pts = codec_catch(|| points(v)).unwrap_or_default();
+        smp.push(CodecSample { label: label.clone(), bytes, bare, json, points: pts });
+    }
+    let vals: Rc<Vec<T>> = Rc::new(samples.into_iter().map(|(_, v)| v).collect());
+
+    let pts2 = points.clone();
+    let decode = move |form: u8, input: &[u8], run_consumers: bool| -> CodecDec {
+        let r: Result<Result<T, String>, ()> = codec_catch(|| match form {
+            CODEC_BARE => serde_bare::from_slice::<T>(input).map_err(|e| e.to_string()),
+            CODEC_JSON => match std::str::from_utf8(input) {
+                Ok(st) => serde_json::from_str::<T>(st).map_err(|e| e.to_string()),
+                Err(_) => serde_json::from_slice::<T>(input).map_err(|e| e.to_string()),
+            },
+            _ => match ops {
+                None => Err("no byte form".to_string()),
+                Some(o) => match form {
+                    CODEC_BYTES => (o.from_slice)(input),
+                    CODEC_BYTES_VEC => (o.from_vec)(input.to_vec()),
+                    CODEC_BYTES_VECREF => (o.from_vec_ref)(&input.to_vec()),
+                    _ => (o.from_box)(input.to_vec().into_boxed_slice()),
+                },
+            },
+        });
+        match r {
+            Err(()) => CodecDec::Panic,
+            Ok(Err(e)) => CodecDec::Err(e),
+            Ok(Ok(v)) => {
+                let reenc = codec_catch(|| {
+                    let b = ops.map(|o| (o.to)(&v));
+                    let bare = serde_bare::to_vec(&v).ok()?;
+                    let js = serde_json::to_string(&v).ok()?;
+                    Some((b, bare, js))
+                })
+                .ok()
+                .flatten();
+                let points = codec_catch(|| pts2(&v)).unwrap_or_else(|_| vec![(true, vec![])]);
+                let consumed = if run_consumers { consume(&v) } else { vec![] };
+                CodecDec::Ok(CodecVal { reenc, points, consumed })
+            }
+        }
+    };
+
+    let roundtrip = move |i: usize| -> Vec<(String, bool, String)> {
+        let v = &vals[i];
+        let mut out: Vec<(String, bool, String)> = Vec::new();
+        let mut push = |name: &str, r: Result<(bool, String), ()>| match r {
+            Ok((ok, note)) => out.push((name.to_string(), ok, note)),
+            Err(()) => out.push((format!("{name}_panicked"), false, "panicked".to_string())),
+        };
+        if let Some(o) = ops {
+            push(
+                "bytes_roundtrip",
+                codec_catch(|| {
+                    let b = (o.to)(v);
+                    match (o.from_slice)(&b) {
+                        Ok(v2) => {
+                            let b2 = (o.to)(&v2);
+                            if v2 != *v {
+                                (false, format!("decoded value differs (re-encodes to {})", codec_hexs(&b2)))
+                            } else if b2 != b {
+                                (false, "re-encoding differs".to_string())
+                            } else {
+                                (true, String::new())
+                            }
+                        }
+                        Err(e) => (false, format!("decode error: {e}")),
+                    }
+                }),
+            );
+            push(
+                "bytes_containers",
+                codec_catch(|| {
+                    let b = (o.to)(v);
+                    let mut notes: Vec<String> = vec![];
+                    if (o.into)(v.clone()) != b {
+                        notes.push("From<T> differs from From<&T>".into());
+                    }
+                    let mut chk = |what: &str, r: Result<T, String>| match r {
+                        Ok(v2) if v2 == *v => {}
+                        Ok(_) => notes.push(format!("{what}: value differs")),
+                        Err(e) => notes.push(format!("{what}: {e}")),
+                    };
+                    chk("Vec<u8>", (o.from_vec)(b.clone()));
+                    chk("&Vec<u8>", (o.from_vec_ref)(&b));
+                    chk("Box<[u8]>", (o.from_box)(b.clone().into_boxed_slice()));
+                    (notes.is_empty(), notes.join("; "))
+                }),
+            );
+        }
+        push(
+            "bare_roundtrip",
+            codec_catch(|| {
+                let b = match serde_bare::to_vec(v) {
+                    Ok(b) => b,
+                    Err(e) => return (false, format!("encode error: {e}")),
+                };
+                match serde_bare::from_slice::<T>(&b) {
+                    Ok(v2) => {
+                        let same = serde_bare::to_vec(&v2).map(|b2| b2 == b).unwrap_or(false);
+                        (v2 == *v && same, if v2 != *v { "decoded value differs".into() } else { String::new() })
+                    }
+                    Err(e) => (false, format!("decode error: {e}")),
+                }
+            }),
+        );
+        push(
+            "json_roundtrip",
+            codec_catch(|| {
+                let b = match serde_json::to_string(v) {
+                    Ok(b) => b,
+                    Err(e) => return (false, format!("encode error: {e}")),
+                };
+                match serde_json::from_str::<T>(&b) {
+                    Ok(v2) => {
+                        let same = serde_json::to_string(&v2).map(|b2| b2 == b).unwrap_or(false);
+                        (v2 == *v && same, if v2 != *v { "decoded value differs".into() } else { String::new() })
+                    }
+                    Err(e) => (false, format!("decode error: {e}")),
+                }
+            }),
+        );
+        push(
+            "encoding_deterministic",
+            codec_catch(|| {
+                let mut notes: Vec<&str> = vec![];
+                if let Some(o) = ops {
+                    if (o.to)(v) != (o.to)(v) {
+                        notes.push("bytes");
+                    }
+                }
+                if serde_bare::to_vec(v).ok() != serde_bare::to_vec(&v.clone()).ok() {
+                    notes.push("bare");
+                }
+                if serde_json::to_string(v).ok() != serde_json::to_string(&v.clone()).ok() {
+                    notes.push("json");
+                }
+                (notes.is_empty(), notes.join(","))
+            }),
+        );
+        out
+    };
+
+    CodecTy {
+        name,
+        has_bytes: ops.is_some(),
+        fixed,
+        exact,
+        checked,
+        samples: smp,
+        decode: Box::new(decode),
+        roundtrip: Box::new(roundtrip),
+    }
+}
+
+// ---------------------------------------------------------------------------------------------
+// invalid point encodings
+// ---------------------------------------------------------------------------------------------
+
+pub struct CodecBad {
+    pub kind: &'static str,
+    pub bytes: Vec<u8>,
+}
+
+/// reference validity of a compressed point (on curve, in the subgroup; identity allowed)
+pub fn codec_point_valid(p: &CodecPoint) -> bool {
+    if p.0 {
+        dec_g1(&p.1).is_some()
+    } else {
+        dec_g2(&p.1).is_some()
+    }
+}
+
+pub fn codec_bad_points(rng: &mut Prng, g1: bool, n: usize) -> Vec<CodecBad> {
+    use bls12_381_plus as r;
+    let len = if g1 { 48 } else { 96 };
+    let mut out = Vec::new();
+    let (mut off, mut nox, mut guard) = (0usize, 0usize, 0usize);
+    while (off < n || nox < n) && guard < 100_000 {
+        guard += 1;
+        let mut b = rng.bytes(len);
+        let sign = b[0] & 0x20;
+        // compression flag set, infinity clear; top byte of every coordinate < 0x1a, hence x < p
+        b[0] = 0x80 | sign | (rng.below(0x1a) as u8);
+        if !g1 {
+            b[48] = rng.below(0x1a) as u8;
+        }
+        let (decoded, torsion_free) = if g1 {
+            let a: [u8; 48] = b.clone().try_into().unwrap();
+            let p: Option<r::G1Affine> = r::G1Affine::from_compressed_unchecked(&a).into();
+            (p.is_some(), p.map(|p| bool::from(p.is_torsion_free())).unwrap_or(false))
+        } else {
+            let a: [u8; 96] = b.clone().try_into().unwrap();
+            let p: Option<r::G2Affine> = r::G2Affine::from_compressed_unchecked(&a).into();
+            (p.is_some(), p.map(|p| bool::from(p.is_torsion_free())).unwrap_or(false))
+        };
+        if decoded && !torsion_free {
+            if off < n {
+                out.push(CodecBad { kind: "off_subgroup", bytes: b });
+                off += 1;
+            }
+        } else if !decoded && nox < n {
+            out.push(CodecBad { kind: "no_curve_point", bytes: b });
+            nox += 1;
+        }
+    }
+    let k = rng.scalar();
+    let good = if g1 { enc_g1(&k) } else { enc_g2(&k) };
+    let mut c = good.clone();
+    c[0] &= 0x7f;
+    out.push(CodecBad { kind: "flag_compression_cleared", bytes: c });
+    let mut c = good.clone();
+    c[0] |= 0x40;
+    out.push(CodecBad { kind: "flag_infinity_on_nonzero_body", bytes: c });
+    let mut c = vec![0u8; len];
+    c[0] = 0xe0;
+    out.push(CodecBad { kind: "flag_infinity_with_sign", bytes: c });
+    let mut c = vec![0u8; len];
+    c[0] = 0x40;
+    out.push(CodecBad { kind: "flag_infinity_without_compression", bytes: c });
+    out.push(CodecBad { kind: "flag_all_zero", bytes: vec![0u8; len] });
+    out
+}
+
+pub fn codec_find(hay: &[u8], needle: &[u8]) -> Option<usize> {
+    if needle.is_empty() || needle.len() > hay.len() {
+        return None;
+    }
+    hay.windows(needle.len()).position(|w| w == needle)
+}
+
+pub fn codec_splice(hay: &[u8], at: usize, old_len: usize, new: &[u8]) -> Vec<u8> {
+    let mut v = hay[..at].to_vec();
+    v.extend_from_slice(new);
+    v.extend_from_slice(&hay[at + old_len..]);
+    v
+}
+
+/// (start, end) of the content of every JSON string token made of >= 8 hex digits only
+pub fn codec_json_hex_fields(js: &str) -> Vec<(usize, usize)> {
+    let b = js.as_bytes();
+    let mut out = vec![];
+    let mut i = 0;
+    while i < b.len() {
+        if b[i] == b'"' {
+            let st = i + 1;
+            let mut j = st;
+            while j < b.len() && b[j] != b'"' {
+                j += 1;
+            }
+            if j - st >= 8 && b[st..j].iter().all(|c| c.is_ascii_hexdigit()) {
+                out.push((st, j));
+            }
+            i = j + 1;
+        } else {
+            i += 1;
+        }
+    }
+    out
+}
+
+// ---------------------------------------------------------------------------------------------
+// C15 generic runner
+// ---------------------------------------------------------------------------------------------
+
+pub fn codec_run_c15(rec: &mut CodecRec, tys: &[CodecTy]) {
+    for ty in tys {
+        let mut len0: Option<(Option<usize>, usize)> = None;
+        for (i, sm) in ty.samples.iter().enumerate() {
+            let key = format!("{}|{}", ty.name, sm.label);
+            let det = json!({"impl": rec.imp, "type": ty.name, "sample": sm.label, "bare": codec_hexs(&sm.bare), "bytes": sm.bytes.as_ref().map(|b| codec_hexs(b))});
+            for (check, ok, note) in (ty.roundtrip)(i) {
+                let mut d = det.clone();
+                if !note.is_empty() {
+                    d["note"] = json!(note);
+                }
+                rec.case(&format!("{}_{}", ty.name, check), key.clone(), ok, d);
+            }
+            if ty.fixed {
+                let l = (sm.bytes.as_ref().map(|b| b.len()), sm.bare.len());
+                let ok = match len0 {
+                    None => {
+                        len0 = Some(l);
+                        true
+                    }
+                    Some(l0) => l0 == l,
+                };
+                let mut d = det.clone();
+                d["lengths_bytes_bare"] = json!([l.0, l.1]);
+                d["first_lengths"] = json!([len0.unwrap().0, len0.unwrap().1]);
+                rec.case(&format!("{}_fixed_length", ty.name), key.clone(), ok, d);
+            }
+        }
+    }
+}
+
+// ---------------------------------------------------------------------------------------------
+// C16 generic runner
+// ---------------------------------------------------------------------------------------------
+
+fn codec_c16_expect_err(rec: &mut CodecRec, ty: &CodecTy, form: u8, what: &str, key: String, input: &[u8], mut det: serde_json::Value) {
+    let class = format!("{}_{}_{}", ty.name, codec_form_name(form), what);
+    let pclass = format!("{class}_panicked");
+    if !rec.open(&class) || !rec.open(&pclass) {
+        return;
+    }
+    det["impl"] = json!(rec.imp);
+    det["type"] = json!(ty.name);
+    det["decoder"] = json!(codec_form_name(form));
+    det["input"] = json!(if form == CODEC_JSON { codec_strs(input) } else { codec_hexs(input) });
+    match (ty.decode)(form, input, false) {
+        CodecDec::Err(_) => rec.case(&class, key, true, det),
+        CodecDec::Ok(v) => {
+            det["outcome"] = json!("decoded Ok");
+            if let Some((_, bare, _)) = &v.reenc {
+                det["decoded_reencodes_to"] = json!(codec_hexs(bare));
+            }
+            rec.case(&class, key, false, det)
+        }
+        CodecDec::Panic => rec.case(&pclass, key, false, det),
+    }
+}
+
+/// Ok values must re-encode and contain only valid points
+fn codec_c16_ok_is_valid(rec: &mut CodecRec, ty: &CodecTy, form: u8, key: String, input: &[u8], mut det: serde_json::Value) {
+    let class = format!("{}_{}_ok_value_is_valid", ty.name, codec_form_name(form));
+    let pclass = format!("{}_{}_arbitrary_input_panicked", ty.name, codec_form_name(form));
+    if !rec.open(&class) || !rec.open(&pclass) {
+        return;
+    }
+    det["impl"] = json!(rec.imp);
+    det["type"] = json!(ty.name);
+    det["decoder"] = json!(codec_form_name(form));
+    det["input"] = json!(if form == CODEC_JSON { codec_strs(input) } else { codec_hexs(input) });
+    match (ty.decode)(form, input, false) {
+        CodecDec::Err(_) => rec.case(&class, key, true, det),
+        CodecDec::Ok(v) => {
+            let bad: Vec<String> = v.points.iter().filter(|p| !codec_point_valid(p)).map(|p| hex::encode(&p.1)).collect();
+            let ok = v.reenc.is_some() && bad.is_empty();
+            if !ok {
+                det["invalid_points"] = json!(bad);
+                det["reencodes"] = json!(v.reenc.is_some());
+            }
+            rec.case(&class, key, ok, det)
+        }
+        CodecDec::Panic => rec.case(&pclass, key, false, det),
+    }
+}
+
+pub fn codec_run_c16(rec: &mut CodecRec, rng: &mut Prng, tys: &[CodecTy], bad_g1: &[CodecBad], bad_g2: &[CodecBad], thorough: bool) {
+    for ty in tys {
+        // --- invalid points at every point position, all three decoders
+        if ty.checked {
+            let nsm = if thorough { 2 } else { 1 };
+            for sm in ty.samples.iter().take(nsm) {
+                for (pi, (is_g1, pb)) in sm.points.iter().enumerate() {
+                    let bads = if *is_g1 { bad_g1 } else { bad_g2 };
+                    let phex = hex::encode(pb);
+                    for (bi, bad) in bads.iter().enumerate() {
+                        for form in ty.forms() {
+                            let enc = ty.enc(sm, form);
+                            let (needle, repl): (Vec<u8>, Vec<u8>) = if form == CODEC_JSON {
+                                (phex.clone().into_bytes(), hex::encode(&bad.bytes).into_bytes())
+                            } else {
+                                (pb.clone(), bad.bytes.clone())
+                            };
+                            let Some(at) = codec_find(enc, &needle) else {
+                                eprintln!("codec: point {pi} of {} not found in its {} encoding", ty.name, codec_form_name(form));
+                                continue;
+                            };
+                            let input = codec_splice(enc, at, needle.len(), &repl);
+                            let key = format!("{}|{}|{}|p{}|{}#{}", ty.name, form, sm.label, pi, bad.kind, bi);
+                            let det = json!({"base": sm.label, "point_index": pi, "offset": at, "kind": bad.kind, "bad_point": hex::encode(&bad.bytes)});
+                            codec_c16_expect_err(rec, ty, form, "rejects_invalid_point", key, &input, det);
+                        }
+                    }
+                    // (d) the hex string of the point shortened / extended by one byte
+                    let enc = sm.json.as_bytes();
+                    if let Some(at) = codec_find(enc, phex.as_bytes()) {
+                        for (lab, repl) in [("point_hex_minus_1_byte", phex[..phex.len() - 2].to_string()), ("point_hex_plus_1_byte", format!("{phex}00")), ("point_hex_plus_1_byte_front", format!("00{phex}"))] {
+                            let input = codec_splice(enc, at, phex.len(), repl.as_bytes());
+                            let key = format!("{}|json|{}|p{}|{}", ty.name, sm.label, pi, lab);
+                            let det = json!({"base": sm.label, "point_index": pi, "kind": lab});
+                            codec_c16_expect_err(rec, ty, CODEC_JSON, "rejects_invalid_point", key, &input, det);
+                        }
+                    }
+                }
+            }
+        }
+        // --- truncation: every proper prefix (byte and bare forms)
+        let nsm = if thorough { 3 } else { 1 };
+        for sm in ty.samples.iter().take(nsm) {
+            for form in ty.forms() {
+                if form == CODEC_JSON {
+                    continue;
+                }
+                let enc = ty.enc(sm, form);
+                if enc.len() > 2048 {
+                    continue;
+                }
+                for k in 0..enc.len() {
+                    let key = format!("{}|{}|{}|trunc{}", ty.name, form, sm.label, k);
+                    let det = json!({"base": sm.label, "kept": k, "of": enc.len()});
+                    codec_c16_expect_err(rec, ty, form, "rejects_truncation", key, &enc[..k], det);
+                }
+            }
+        }
+        // --- exact-length types: every other length is rejected
+        if ty.exact && ty.has_bytes {
+            for sm in ty.samples.iter().take(nsm) {
+                let enc = ty.enc(sm, CODEC_BYTES);
+                for d in [1usize, 2, 16] {
+                    if enc.len() >= d {
+                        let key = format!("{}|{}|shorter{}", ty.name, sm.label, d);
+                        codec_c16_expect_err(rec, ty, CODEC_BYTES, "rejects_wrong_length", key, &enc[..enc.len() - d], json!({"base": sm.label, "delta": -(d as i64)}));
+                        let key = format!("{}|{}|shorter_front{}", ty.name, sm.label, d);
+                        codec_c16_expect_err(rec, ty, CODEC_BYTES, "rejects_wrong_length", key, &enc[d..], json!({"base": sm.label, "delta": -(d as i64), "cut": "front"}));
+                    }
+                    for (fill, ext) in [("zeros", vec![0u8; d]), ("ff", vec![0xffu8; d]), ("random", rng.bytes(d))] {
+                        let mut input = enc.to_vec();
+                        input.extend_from_slice(&ext);
+                        let key = format!("{}|{}|longer{}{}", ty.name, sm.label, d, fill);
+                        codec_c16_expect_err(rec, ty, CODEC_BYTES, "rejects_wrong_length", key, &input, json!({"base": sm.label, "delta": d, "fill": fill}));
+                        let mut input = ext.clone();
+                        input.extend_from_slice(enc);
+                        let key = format!("{}|{}|longer_front{}{}", ty.name, sm.label, d, fill);
+                        codec_c16_expect_err(rec, ty, CODEC_BYTES, "rejects_wrong_length", key, &input, json!({"base": sm.label, "delta": d, "fill": fill, "where": "front"}));
+                    }
+                }
+            }
+        }
+        // --- arbitrary inputs: whatever decodes is valid
+        let sm = &ty.samples[0];
+        let nrand = if thorough { 256 } else { 48 };
+        for form in ty.forms() {
+            let enc = ty.enc(sm, form).to_vec();
+            if form == CODEC_JSON {
+                // structurally valid documents with random hex of the right length in every hex field
+                let fields = codec_json_hex_fields(&sm.json);
+                for t in 0..nrand.min(32) {
+                    let mut doc = enc.clone();
+                    for (st, en) in &fields {
+                        if t % 2 == 0 || rng.below(2) == 0 {
+                            let h = hex::encode(rng.bytes((en - st) / 2));
+                            doc[*st..*en].copy_from_slice(h.as_bytes());
+                        }
+                    }
+                    let key = format!("{}|json|randhex{}", ty.name, t);
+                    codec_c16_ok_is_valid(rec, ty, form, key, &doc, json!({"kind": "random hex in hex fields", "base": sm.label}));
+                }
+                let key = format!("{}|json|randbytes", ty.name);
+                codec_c16_ok_is_valid(rec, ty, form, key, &rng.bytes(40), json!({"kind": "random bytes"}));
+                continue;
+            }
+            let mut lens = vec![0usize, 1, 2, 16, 31, 32, 33, 34, 47, 48, 49, 50, 64, 95, 96, 97, 98, 128, 192, 193];
+            lens.push(enc.len());
+            lens.push(enc.len() + 1);
+            for t in 0..nrand {
+                let l = lens[t % lens.len()];
+                let input = rng.bytes(l);
+                let key = format!("{}|{}|rand{}", ty.name, form, t);
+                codec_c16_ok_is_valid(rec, ty, form, key, &input, json!({"kind": "random bytes", "len": l}));
+            }
+            // valid encodings with a random byte / bit changed (these do decode now and then)
+            if !enc.is_empty() {
+                for t in 0..nrand {
+                    let mut input = enc.clone();
+                    let at = rng.below(input.len() as u64) as usize;
+                    if t % 2 == 0 {
+                        input[at] ^= 1 << rng.below(8);
+                    } else {
+                        input[at] = rng.next() as u8;
+                    }
+                    let key = format!("{}|{}|mut{}", ty.name, form, t);
+                    codec_c16_ok_is_valid(rec, ty, form, key, &input, json!({"kind": "valid encoding with one byte changed", "base": sm.label, "at": at}));
+                }
+            }
+        }
+    }
+}
+
+// ---------------------------------------------------------------------------------------------
+// C17 generic runner
+// ---------------------------------------------------------------------------------------------
+
+pub fn codec_mutations(rng: &mut Prng, enc: &[u8], thorough: bool) -> Vec<(String, Vec<u8>)> {
+    let mut out: Vec<(String, Vec<u8>)> = vec![];
+    let n = enc.len();
+    for k in 1..n {
+        out.push((format!("truncate@{k}"), enc[..k].to_vec()));
+    }
+    let all_bits = thorough && n <= 320;
+    for i in 0..n {
+        let bits: Vec<u32> = if all_bits || i < 2 || i + 1 == n {
+            (0..8).collect()
+        } else if thorough {
+            vec![rng.below(8) as u32, 7]
+        } else {
+            vec![rng.below(8) as u32]
+        };
+        for b in bits {
+            let mut v = enc.to_vec();
+            v[i] ^= 1u8 << b;
+            out.push((format!("flip@{i}.{b}"), v));
+        }
+    }
+    for (lab, ext) in [("extend+1x00", vec![0u8]), ("extend+1xff", vec![0xff]), ("extend+2", rng.bytes(2)), ("extend+16", rng.bytes(16)), ("extend+16x00", vec![0u8; 16])] {
+        let mut v = enc.to_vec();
+        v.extend_from_slice(&ext);
+        out.push((lab.to_string(), v));
+    }
+    for l in [1usize, 2, 3, 16, 31, 32, 33, 34, 47, 48, 49, 50, 64, 95, 96, 97, 98, 128, n, n + 1] {
+        out.push((format!("random{l}"), rng.bytes(l)));
+    }
+    out.push(("zeros".into(), vec![0u8; n]));
+    out.push(("ones".into(), vec![0xffu8; n]));
+    out.push(("empty".into(), vec![]));
+    out
+}
+
+/// mutations of every hex-encoded field of a JSON document
+pub fn codec_json_hex_mutations(js: &str) -> Vec<(String, Vec<u8>)> {
+    let mut out = vec![];
+    let b = js.as_bytes();
+    for (fi, (st, en)) in codec_json_hex_fields(js).into_iter().enumerate() {
+        let f = &js[st..en];
+        let l = f.len();
+        let mut reps: Vec<(&str, String)> = vec![];
+        reps.push(("nonhex_first", format!("g{}", &f[1..])));
+        reps.push(("nonhex_middle", format!("{}z{}", &f[..l / 2], &f[l / 2 + 1..])));
+        reps.push(("nonhex_last", format!("{} ", &f[..l - 1])));
+        reps.push(("nonhex_all", "zz".repeat(l / 2)));
+        reps.push(("uppercase", f.to_uppercase()));
+        reps.push(("odd_minus_1", f[..l - 1].to_string()));
+        reps.push(("odd_plus_1", format!("{f}0")));
+        reps.push(("short_minus_2", f[..l - 2].to_string()));
+        reps.push(("short_half", f[..l / 2].to_string()));
+        reps.push(("short_2", f[..2].to_string()));
+        reps.push(("short_1", f[..1].to_string()));
+        reps.push(("short_empty", String::new()));
+        reps.push(("long_plus_2", format!("{f}00")));
+        reps.push(("long_double", format!("{f}{f}")));
+        reps.push(("prefix_0x", format!("0x{f}")));
+        for (lab, r) in reps {
+            out.push((format!("hexfield{fi}:{lab}"), codec_splice(b, st, l, r.as_bytes())));
+        }
+    }
+    out
+}
+
+fn codec_c17_one(rec: &mut CodecRec, ty: &CodecTy, form: u8, base: &str, mlabel: &str, input: &[u8]) {
+    let class = format!("{}_{}_mutated", ty.name, codec_form_name(if form > CODEC_JSON { CODEC_BYTES } else { form }));
+    let key = format!("{}|{}|{}|{}", ty.name, form, base, mlabel);
+    let instr = if form == CODEC_JSON { codec_strs(input) } else { codec_hexs(input) };
+    let det = json!({"impl": rec.imp, "type": ty.name, "call": codec_form_name(form), "base": base, "mutation": mlabel, "input": instr});
+    match (ty.decode)(form, input, true) {
+        CodecDec::Panic => rec.case(&class, key, false, det),
+        CodecDec::Err(_) => rec.case(&class, key, true, det),
+        CodecDec::Ok(v) => {
+            rec.case(&class, key.clone(), true, det.clone());
+            let rclass = format!("{}_reencode_decoded", ty.name);
+            rec.case(&rclass, key.clone(), v.reenc.is_some(), det.clone());
+            for (cname, ok) in v.consumed {
+                let cclass = format!("{}_consume_{}", ty.name, cname);
+                let mut d = det.clone();
+                d["consumer"] = json!(cname);
+                rec.case(&cclass, key.clone(), ok, d);
+            }
+        }
+    }
+}
+
+/// byte / bare / JSON-text mutations (truncation, flips, extension, random, empty) + consumers
+pub fn codec_run_c17_binary(rec: &mut CodecRec, rng: &mut Prng, tys: &[CodecTy], thorough: bool) {
+    for ty in tys {
+        let nsm = if thorough { 3 } else { 1 };
+        for (si, sm) in ty.samples.iter().take(nsm).enumerate() {
+            for form in ty.forms() {
+                if form == CODEC_JSON {
+                    continue;
+                }
+                let enc = ty.enc(sm, form).to_vec();
+                if enc.len() > 1024 {
+                    continue;
+                }
+                for (ml, input) in codec_mutations(rng, &enc, thorough) {
+                    codec_c17_one(rec, ty, form, &sm.label, &ml, &input);
+                }
+            }
+            // the valid value itself through the consumers, and the container variants on edge inputs
+            if ty.has_bytes && si == 0 {
+                let enc = ty.enc(sm, CODEC_BYTES).to_vec();
+                for form in [CODEC_BYTES, CODEC_BYTES_VEC, CODEC_BYTES_VECREF, CODEC_BYTES_BOX] {
+                    codec_c17_one(rec, ty, form, &sm.label, "unchanged", &enc);
+                    codec_c17_one(rec, ty, form, &sm.label, "empty", &[]);
+                    codec_c17_one(rec, ty, form, &sm.label, "one_byte", &[1]);
+                    if !enc.is_empty() {
+                        codec_c17_one(rec, ty, form, &sm.label, "minus_1", &enc[..enc.len() - 1]);
+                    }
+                }
+            }
+        }
+    }
+}
+
+pub fn codec_run_c17_json(rec: &mut CodecRec, rng: &mut Prng, tys: &[CodecTy], thorough: bool) {
+    for ty in tys {
+        let nsm = if thorough { 2 } else { 1 };
+        for sm in ty.samples.iter().take(nsm) {
+            let enc = sm.json.as_bytes().to_vec();
+            if enc.len() > 2048 {
+                continue;
+            }
+            codec_c17_one(rec, ty, CODEC_JSON, &sm.label, "unchanged", &enc);
+            for (ml, input) in codec_json_hex_mutations(&sm.json) {
+                codec_c17_one(rec, ty, CODEC_JSON, &sm.label, &ml, &input);
+            }
+            for (ml, input) in codec_mutations(rng, &enc, thorough) {
+                codec_c17_one(rec, ty, CODEC_JSON, &sm.label, &ml, &input);
+            }
+            for doc in ["", "null", "0", "\"\"", "[]", "{}", "[0]", "\"00\"", "{\"Basic\":\"\"}", "[1,\"\"]", "true", "\"zz\""] {
+                codec_c17_one(rec, ty, CODEC_JSON, &sm.label, &format!("doc:{doc}"), doc.as_bytes());
+            }
+        }
+    }
+}
+
+// ---------------------------------------------------------------------------------------------
+// the non-generic data types (run once, from the g1 instantiation)
+// ---------------------------------------------------------------------------------------------
+
+pub fn codec_nongeneric_types(rng: &mut Prng, level: u8, thorough: bool) -> Vec<CodecTy> {
+    use blsful::vsss_rs::Share;
+    let mut tys = vec![];
+    let mut keys: Vec<RScalar> = vec![rng.scalar()];
+    if level >= 1 {
+        keys.push(RScalar::ONE);
+        keys.push(-RScalar::ONE);
+    }
+    if level >= 2 {
+        keys.extend(gen::edge_scalars());
+        for _ in 0..(if thorough { 8 } else { 2 }) {
+            keys.push(rng.scalar());
+        }
+    }
+    // ---- SecretKeyEnum
+    {
+        let mut smp: Vec<(String, SecretKeyEnum)> = vec![];
+        for k in &keys {
+            smp.push((format!("G1(sk={})", gen::hs(k)), SecretKeyEnum::G1(SecretKey::<Bls12381G1Impl>(crate::bl::bsc(&sc_be(k))))));
+            smp.push((format!("G2(sk={})", gen::hs(k)), SecretKeyEnum::G2(SecretKey::<Bls12381G2Impl>(crate::bl::bsc(&sc_be(k))))));
+        }
+        tys.push(codec_ty("secret_key_enum", true, false, true, Some(codec_byte_ops::<SecretKeyEnum>()), smp, |_| vec![], |v: &SecretKeyEnum| {
+            codec_consume![
+                "to_be_bytes" => v.to_be_bytes(),
+                "to_le_bytes" => v.to_le_bytes(),
+                "to_vec" => Vec::<u8>::from(v),
+                "public_key" => match v { SecretKeyEnum::G1(k) => { let _ = k.public_key(); } SecretKeyEnum::G2(k) => { let _ = k.public_key(); } },
+                "debug" => format!("{:?}", v),
+            ]
+        }));
+    }
+    // ---- InnerPointShareG1 / InnerPointShareG2
+    {
+        let ids: Vec<u8> = if level < 2 { vec![1, 255] } else if thorough { (1..=255).collect() } else { vec![1, 2, 3, 127, 128, 129, 254, 255, 1 + rng.below(255) as u8] };
+        let mut s1: Vec<(String, InnerPointShareG1)> = vec![];
+        let mut s2: Vec<(String, InnerPointShareG2)> = vec![];
+        for (n, &id) in ids.iter().enumerate() {
+            let k = keys[n % keys.len()];
+            let mut a = [0u8; 49];
+            a[0] = id;
+            a[1..].copy_from_slice(&enc_g1(&k));
+            s1.push((format!("id={id},point={}", gen::hs(&k)), InnerPointShareG1(a)));
+            let mut a = [0u8; 97];
+            a[0] = id;
+            a[1..].copy_from_slice(&enc_g2(&k));
+            s2.push((format!("id={id},point={}", gen::hs(&k)), InnerPointShareG2(a)));
+        }
+        if level >= 2 {
+            s1.push(("default".into(), InnerPointShareG1::default()));
+            s1.push(("all_ff".into(), InnerPointShareG1([0xff; 49])));
+            s2.push(("default".into(), InnerPointShareG2::default()));
+            s2.push(("all_ff".into(), InnerPointShareG2([0xff; 97])));
+        }
+        tys.push(codec_ty("inner_point_share_g1", true, true, false, Some(codec_byte_ops::<InnerPointShareG1>()), s1, |_| vec![], |v: &InnerPointShareG1| {
+            codec_consume![
+                "identifier" => v.identifier(),
+                "value_vec" => v.value_vec(),
+                "is_zero" => Share::is_zero(v),
+                "as_group_element" => v.as_group_element::<blsful::inner_types::G1Projective>(),
+                "as_wrong_group_element" => v.as_group_element::<blsful::inner_types::G2Projective>(),
+                "display" => format!("{} {:x} {:X} {:?}", v, v, v, v),
+            ]
+        }));
+        tys.push(codec_ty("inner_point_share_g2", true, true, false, Some(codec_byte_ops::<InnerPointShareG2>()), s2, |_| vec![], |v: &InnerPointShareG2| {
+            codec_consume![
+                "identifier" => v.identifier(),
+                "value_vec" => v.value_vec(),
+                "is_zero" => Share::is_zero(v),
+                "as_group_element" => v.as_group_element::<blsful::inner_types::G2Projective>(),
+                "as_wrong_group_element" => v.as_group_element::<blsful::inner_types::G1Projective>(),
+                "display" => format!("{} {:x} {:X} {:?}", v, v, v, v),
+            ]
+        }));
+    }
+    // ---- SignatureSchemes / Bls12381 (serde forms only; u8 / string forms are checked separately)
+    {
+        let smp: Vec<(String, SignatureSchemes)> = vec![("Basic".into(), SignatureSchemes::Basic), ("MessageAugmentation".into(), SignatureSchemes::MessageAugmentation), ("ProofOfPossession".into(), SignatureSchemes::ProofOfPossession)];
+        tys.push(codec_ty("signature_schemes", true, false, true, None, smp, |_| vec![], |v: &SignatureSchemes| {
+            codec_consume!["display" => format!("{} {:?}", v, v)]
+        }));
+        let smp: Vec<(String, Bls12381)> = vec![("G1".into(), Bls12381::G1), ("G2".into(), Bls12381::G2)];
+        tys.push(codec_ty("bls12381", true, false, true, None, smp, |_| vec![], |v: &Bls12381| {
+            codec_consume!["display" => format!("{} {:?} {}", v, v, u8::from(v))]
+        }));
+    }
+    tys
+}
+
+/// u8 and string forms of the two small enums, SecretKeyEnum's extra byte forms
+pub fn codec_c15_small(rec: &mut CodecRec, rng: &mut Prng, thorough: bool) {
+    use std::str::FromStr;
+    for (v, name, n) in [(SignatureSchemes::Basic, "Basic", 0u8), (SignatureSchemes::MessageAugmentation, "MessageAugmentation", 1), (SignatureSchemes::ProofOfPossession, "ProofOfPossession", 2)] {
+        let det = json!({"type": "SignatureSchemes", "variant": name});
+        rec.case("signature_schemes_u8_roundtrip", name.into(), codec_catch(|| SignatureSchemes::from(v as u8) == v && v as u8 == n).unwrap_or(false), det.clone());
+        rec.case(
+            "signature_schemes_string_roundtrip",
+            name.into(),
+            codec_catch(|| v.to_string() == name && SignatureSchemes::from(v.to_string().as_str()) == v && SignatureSchemes::from_str(&v.to_string()).ok() == Some(v)).unwrap_or(false),
+            det,
+        );
+    }
+    for (v, name, n) in [(Bls12381::G1, "BLS12381G1", 1u8), (Bls12381::G2, "BLS12381G2", 2)] {
+        let det = json!({"type": "Bls12381", "variant": name});
+        rec.case("bls12381_u8_roundtrip", name.into(), codec_catch(|| u8::from(v) == n && u8::from(&v) == n && Bls12381::try_from(n).ok() == Some(v) && Bls12381::try_from(&n).ok() == Some(v)).unwrap_or(false), det.clone());
+        rec.case("bls12381_string_roundtrip", name.into(), codec_catch(|| v.to_string() == name && Bls12381::from_str(&v.to_string()).ok() == Some(v)).unwrap_or(false), det);
+    }
+    // SecretKeyEnum: to_be_bytes/from_be_bytes, to_le_bytes/from_le_bytes must return the same variant and key
+    let mut keys = gen::edge_scalars();
+    for _ in 0..(if thorough { 8 } else { 2 }) {
+        keys.push(rng.scalar());
+    }
+    for k in &keys {
+        for g1 in [true, false] {
+            let v = if g1 {
+                SecretKeyEnum::G1(SecretKey::<Bls12381G1Impl>(crate::bl::bsc(&sc_be(k))))
+            } else {
+                SecretKeyEnum::G2(SecretKey::<Bls12381G2Impl>(crate::bl::bsc(&sc_be(k))))
+            };
+            let variant = if g1 { "G1" } else { "G2" };
+            let key = format!("{}|{}", variant, gen::hs(k));
+            for (class, be) in [("secret_key_enum_be_bytes_roundtrip", true), ("secret_key_enum_le_bytes_roundtrip", false)] {
+                if !rec.open(class) {
+                    continue;
+                }
+                let r = codec_catch(|| {
+                    let b = if be { v.to_be_bytes() } else { v.to_le_bytes() };
+                    let back: Option<SecretKeyEnum> = if be { SecretKeyEnum::from_be_bytes(&b).into() } else { SecretKeyEnum::from_le_bytes(&b).into() };
+                    let note = match &back {
+                        None => "rejected".to_string(),
+                        Some(SecretKeyEnum::G1(_)) => "came back as G1".to_string(),
+                        Some(SecretKeyEnum::G2(_)) => "came back as G2".to_string(),
+                    };
+                    (back.as_ref() == Some(&v), hex::encode(b), note)
+                });
+                match r {
+                    Ok((ok, enc, note)) => rec.case(class, key.clone(), ok, json!({"type": "SecretKeyEnum", "variant": variant, "sk": gen::hs(k), "encoded": enc, "outcome": note})),
+                    Err(()) => rec.case(&format!("{class}_panicked"), key.clone(), false, json!({"type": "SecretKeyEnum", "variant": variant, "sk": gen::hs(k)})),
+                }
+            }
+        }
+    }
+}
+
+fn codec_ske_entry(e: usize, input: &[u8]) -> Result<Option<SecretKeyEnum>, ()> {
+    codec_catch(|| match e {
+        0 => SecretKeyEnum::try_from(input).ok(),
+        1 => SecretKeyEnum::from_be_bytes(input).into(),
+        2 => SecretKeyEnum::from_le_bytes(input).into(),
+        3 => SecretKeyEnum::try_from(input.to_vec()).ok(),
+        4 => SecretKeyEnum::try_from(&input.to_vec()).ok(),
+        _ => SecretKeyEnum::try_from(input.to_vec().into_boxed_slice()).ok(),
+    })
+}
+
+/// zero and unreduced keys behind either tag are rejected by the three byte entry points
+pub fn codec_c16_secret_key_enum(rec: &mut CodecRec) {
+    let r_be = codec_r_be();
+    for (lab, be) in [("zero", [0u8; 32]), ("r", r_be)] {
+        for tag in [0u8, 1, 2] {
+            for e in 0..3usize {
+                let mut input = vec![tag];
+                if e == 2 {
+                    let mut le = be;
+                    le.reverse();
+                    input.extend_from_slice(&le);
+                } else {
+                    input.extend_from_slice(&be);
+                }
+                let class = format!("secret_key_enum_{}_rejects_zero_and_r", CODEC_SCALAR_ENTRIES[e]);
+                let det = json!({"type": "SecretKeyEnum", "entry": CODEC_SCALAR_ENTRIES[e], "value": lab, "tag": tag, "input": hex::encode(&input)});
+                let key = format!("{lab}|{tag}");
+                match codec_ske_entry(e, &input) {
+                    Ok(None) => rec.case(&class, key, true, det),
+                    Ok(Some(_)) => rec.case(&class, key, false, det),
+                    Err(()) => rec.case(&format!("{class}_panicked"), key, false, det),
+                }
+            }
+        }
+    }
+}
+
+/// empty and short slices into the three (six) byte entry points of SecretKeyEnum
+pub fn codec_c17_secret_key_enum(rec: &mut CodecRec, rng: &mut Prng) {
+    for e in 0..3usize {
+        let class = format!("secret_key_enum_{}_empty", CODEC_SCALAR_ENTRIES[e]);
+        let det = json!({"type": "SecretKeyEnum", "entry": CODEC_SCALAR_ENTRIES[e], "input": ""});
+        rec.case(&class, "empty".into(), codec_ske_entry(e, &[]).is_ok(), det);
+        let class = format!("secret_key_enum_{}_short", CODEC_SCALAR_ENTRIES[e]);
+        let mut inputs: Vec<Vec<u8>> = vec![];
+        for tag in [0u8, 1, 2, 3, 0x80, 0xff] {
+            for l in [0usize, 1, 2, 16, 31, 32, 33, 64] {
+                let mut v = vec![tag];
+                v.extend_from_slice(&rng.bytes(l));
+                if l == 32 {
+                    v[1] &= 0x3f;
+                }
+                inputs.push(v);
+            }
+        }
+        for input in inputs {
+            let det = json!({"type": "SecretKeyEnum", "entry": CODEC_SCALAR_ENTRIES[e], "input": hex::encode(&input)});
+            rec.case(&class, hex::encode(&input), codec_ske_entry(e, &input).is_ok(), det);
+        }
+    }
+}
+
 macro_rules! search_codec {
     () => {
-        pub fn c15(_s: &mut Search, _rng: &mut Prng, _thorough: bool) {}
-        pub fn c16(_s: &mut Search, _rng: &mut Prng, _thorough: bool) {}
-        pub fn c17(_s: &mut Search, _rng: &mut Prng, _thorough: bool) {}
+        use crate::search_codec::*;
+        use blsful::vsss_rs::Share as CodecShare;
+        use std::rc::Rc as CodecRc;
+
+        pub const CODEC_IMPL: &str = if G1 { "g1" } else { "g2" };
+        pub type CodecPk = <C as Pairing>::PublicKey;
+        pub type CodecSg = <C as Pairing>::Signature;
+        pub type CodecPkShare = <C as Pairing>::PublicKeyShare;
+        pub type CodecSgShare = <C as Pairing>::SignatureShare;
+
+        pub fn codec_pkpt(p: &CodecPk) -> CodecPoint {
+            (!G1, p.to_bytes().as_ref().to_vec())
+        }
+        pub fn codec_sgpt(p: &CodecSg) -> CodecPoint {
+            (G1, p.to_bytes().as_ref().to_vec())
+        }
+        pub fn codec_pk_of(k: &RScalar) -> CodecPk {
+            <CodecPk as Group>::generator() * bsc(&sc_be(k))
+        }
+        pub fn codec_sg_of(k: &RScalar) -> CodecSg {
+            <CodecSg as Group>::generator() * bsc(&sc_be(k))
+        }
+        /// share container (identifier, payload) of the public-key group; payload of any length
+        pub fn codec_pk_share(id: u8, payload: &[u8]) -> Option<CodecPkShare> {
+            let mut b = vec![id];
+            b.extend_from_slice(payload);
+            serde_bare::from_slice::<CodecPkShare>(&b).ok()
+        }
+        pub fn codec_sg_share(id: u8, payload: &[u8]) -> Option<CodecSgShare> {
+            let mut b = vec![id];
+            b.extend_from_slice(payload);
+            serde_bare::from_slice::<CodecSgShare>(&b).ok()
+        }
+        pub fn codec_chacha(rng: &mut Prng) -> rand_chacha::ChaCha20Rng {
+            use rand_core::SeedableRng;
+            let mut seed = [0u8; 32];
+            seed.copy_from_slice(&rng.bytes(32));
+            rand_chacha::ChaCha20Rng::from_seed(seed)
+        }
+
+        /// valid companions for the consumers
+        pub struct CodecCtx {
+            pub k1: RScalar,
+            pub k2: RScalar,
+            pub sk: SecretKey<C>,
+            pub pk: PublicKey<C>,
+            pub sk2: SecretKey<C>,
+            pub pk2: PublicKey<C>,
+            pub msg: Vec<u8>,
+            pub msg2: Vec<u8>,
+            pub sigs: Vec<Signature<C>>,
+            pub sigs2: Vec<Signature<C>>,
+            pub pop: ProofOfPossession<C>,
+            pub x: ProofCommitmentSecret<C>,
+            pub y: ProofCommitmentChallenge<C>,
+            pub commitment: ProofCommitment<C>,
+            pub pok: ProofOfKnowledge<C>,
+            pub pokt: ProofOfKnowledgeTimestamp<C>,
+            pub shares: Vec<SecretKeyShare<C>>,
+            pub pkshares: Vec<PublicKeyShare<C>>,
+            pub sigshares: Vec<SignatureShare<C>>,
+            pub sc: SignCryptCiphertext<C>,
+            pub sds: Vec<SignDecryptionShare<C>>,
+            pub sdk: SignCryptDecryptionKey<C>,
+            pub tc_id: Vec<u8>,
+            pub tc: TimeCryptCiphertext<C>,
+            pub tc_sig: Signature<C>,
+            pub eg: ElGamalCiphertext<C>,
+            pub egp: ElGamalProof<C>,
+            pub egds: Vec<ElGamalDecryptionShare<C>>,
+            pub egdk: ElGamalDecryptionKey<C>,
+            pub mpk: MultiPublicKey<C>,
+            pub msig: MultiSignature<C>,
+            pub agg: AggregateSignature<C>,
+        }
+
+        pub fn codec_ctx(rng: &mut Prng) -> Option<CodecRc<CodecCtx>> {
+            let k1 = rng.scalar();
+            let k2 = rng.scalar();
+            let seed = codec_chacha(rng);
+            catch(move || {
+                let sk = sk_of(&k1);
+                let sk2 = sk_of(&k2);
+                let pk = sk.public_key();
+                let pk2 = sk2.public_key();
+                let msg = b"codec companion message".to_vec();
+                let msg2 = b"another companion message".to_vec();
+                let sigs: Vec<Signature<C>> = (0..3u8).map(|i| sk.sign(scheme_of(i), &msg).unwrap()).collect();
+                let sigs2: Vec<Signature<C>> = (0..3u8).map(|i| sk2.sign(scheme_of(i), &msg2).unwrap()).collect();
+                let pop = sk.proof_of_possession().unwrap();
+                let y = ProofCommitmentChallenge::<C>::from_hash(b"codec challenge");
+                let (commitment, x) = ProofCommitment::<C>::generate(&msg, sigs[0]).unwrap();
+                let pok = commitment.finalize(x, y, sigs[0]).unwrap();
+                let pokt = ProofOfKnowledgeTimestamp::<C>::generate(&msg, sigs[0]).unwrap();
+                let shares = sk.split_with_rng(2, 3, seed).unwrap();
+                let pkshares: Vec<PublicKeyShare<C>> = shares.iter().map(|s| s.public_key().unwrap()).collect();
+                let sigshares: Vec<SignatureShare<C>> = shares.iter().map(|s| s.sign(SignatureSchemes::Basic, &msg).unwrap()).collect();
+                let sc = pk.sign_crypt(SignatureSchemes::Basic, b"signcrypt companion");
+                let sds: Vec<SignDecryptionShare<C>> = shares.iter().map(|s| sc.create_decryption_share(s).unwrap()).collect();
+                let sdk = sk.sign_decryption_key::<&[u8]>(&sc);
+                let tc_id = b"codec time lock id".to_vec();
+                let tc = pk.encrypt_time_lock(SignatureSchemes::Basic, b"time lock companion", &tc_id).unwrap();
+                let tc_sig = sk.sign(SignatureSchemes::Basic, &tc_id).unwrap();
+                let eg = pk.encrypt_key_el_gamal(&sk2).unwrap();
+                let egp = pk.encrypt_key_el_gamal_with_proof(&sk2).unwrap();
+                let egds: Vec<ElGamalDecryptionShare<C>> = shares
+                    .iter()
+                    .map(|s| ElGamalDecryptionShare::<C>(<C as BlsSignatureCore>::public_key_share_with_generator(&s.0, eg.c1).unwrap()))
+                    .collect();
+                let egdk = ElGamalDecryptionKey::<C>::from_shares(&egds[..2]).unwrap();
+                let mpk = MultiPublicKey::<C>::from_public_keys([pk, pk2]);
+                let both = [sigs[0], sk2.sign(SignatureSchemes::Basic, &msg).unwrap()];
+                let msig = MultiSignature::<C>::from_signatures(both).unwrap();
+                let agg = AggregateSignature::<C>::from_signatures([sigs[0], sigs2[0]]).unwrap();
+                CodecRc::new(CodecCtx {
+                    k1, k2, sk, pk, sk2, pk2, msg, msg2, sigs, sigs2, pop, x, y, commitment, pok, pokt, shares, pkshares,
+                    sigshares, sc, sds, sdk, tc_id, tc, tc_sig, eg, egp, egds, egdk, mpk, msig, agg,
+                })
+            })
+            .ok()
+        }
+
+        pub fn codec_share_ids(rng: &mut Prng, level: u8, thorough: bool) -> Vec<u8> {
+            if level < 2 {
+                vec![1, 255]
+            } else if thorough {
+                (1..=255u8).collect()
+            } else {
+                let mut v = vec![1u8, 2, 3, 4, 15, 16, 17, 63, 64, 65, 127, 128, 129, 191, 192, 200, 253, 254, 255];
+                for _ in 0..5 {
+                    v.push(1 + rng.below(255) as u8);
+                }
+                v
+            }
+        }
+
+        /// Every generic data type with samples (sample 0 is always a "typical" random-valued one
+        /// with pairwise distinct points), the points it contains and its consumers.
+        /// level 0: minimal, 1: a few, 2: full edge set (C15).
+        pub fn codec_types(rng: &mut Prng, level: u8, thorough: bool, ctx: &CodecRc<CodecCtx>) -> Vec<CodecTy> {
+            let mut tys: Vec<CodecTy> = Vec::new();
+            let mut keys: Vec<RScalar> = vec![ctx.k2];
+            if level >= 1 {
+                keys.push(RScalar::ONE);
+                keys.push(-RScalar::ONE);
+            }
+            if level >= 2 {
+                keys.extend(gen::edge_scalars());
+                for _ in 0..(if thorough { 48 } else { 8 }) {
+                    keys.push(rng.scalar());
+                }
+            }
+            let edge = level >= 2;
+            let pk_id = <CodecPk as Group>::identity();
+            let sg_id = <CodecSg as Group>::identity();
+            let ids = codec_share_ids(rng, level, thorough);
+            let msgs: Vec<Vec<u8>> = if level >= 2 {
+                let mut l = vec![0usize, 1, 31, 32, 33, 1000];
+                l.push(if thorough { 200_000 } else { 20_000 });
+                l.iter().map(|&n| gen::message(rng, n)).collect()
+            } else {
+                vec![b"payload".to_vec()]
+            };
+
+            // ---- SecretKey
+            {
+                let smp: Vec<(String, SecretKey<C>)> = keys.iter().map(|k| (format!("sk={}", gen::hs(k)), sk_of(k))).collect();
+                let c = ctx.clone();
+                tys.push(codec_ty("secret_key", true, true, true, Some(codec_byte_ops::<SecretKey<C>>()), smp, |_| vec![], move |v: &SecretKey<C>| {
+                    codec_consume![
+                        "public_key" => v.public_key(),
+                        "to_be_bytes" => v.to_be_bytes(),
+                        "to_le_bytes" => v.to_le_bytes(),
+                        "sign_basic" => v.sign(SignatureSchemes::Basic, &c.msg),
+                        "sign_aug" => v.sign(SignatureSchemes::MessageAugmentation, &c.msg),
+                        "sign_pop" => v.sign(SignatureSchemes::ProofOfPossession, &c.msg),
+                        "proof_of_possession" => v.proof_of_possession(),
+                        "sign_crypt_decrypt" => c.sc.decrypt(v),
+                        "sign_decryption_key" => v.sign_decryption_key::<&[u8]>(&c.sc),
+                        "el_gamal_decrypt" => c.eg.decrypt(v),
+                        "el_gamal_verify_and_decrypt" => c.egp.verify_and_decrypt(v),
+                    ]
+                }));
+            }
+            // ---- PublicKey
+            {
+                let mut smp: Vec<(String, PublicKey<C>)> = keys.iter().map(|k| (format!("pk_of={}", gen::hs(k)), sk_of(k).public_key())).collect();
+                if edge {
+                    smp.push(("identity".into(), PublicKey::<C>(pk_id)));
+                }
+                let c = ctx.clone();
+                tys.push(codec_ty("public_key", true, true, true, Some(codec_byte_ops::<PublicKey<C>>()), smp, |v: &PublicKey<C>| vec![codec_pkpt(&v.0)], move |v: &PublicKey<C>| {
+                    codec_consume![
+                        "signature_verify" => c.sigs2[0].verify(v, &c.msg2),
+                        "signature_verify_aug" => c.sigs2[1].verify(v, &c.msg2),
+                        "pop_verify" => c.pop.verify(*v),
+                        "aggregate_verify" => c.agg.verify(&[(c.pk, c.msg.clone()), (*v, c.msg2.clone())]),
+                        "pok_verify" => c.pok.verify(*v, &c.msg, c.y),
+                        "pok_timestamp_verify" => c.pokt.verify(*v, &c.msg, None),
+                        "el_gamal_proof_verify" => c.egp.verify(*v),
+                        "multi_public_key" => MultiPublicKey::<C>::from_public_keys([c.pk, *v]),
+                        "display" => format!("{} {:?}", v, v),
+                    ]
+                }));
+            }
+            // ---- Signature / AggregateSignature / MultiSignature / ProofCommitment (scheme-tagged point)
+            {
+                let mut smp: Vec<(String, Signature<C>)> = vec![];
+                for (ki, k) in keys.iter().enumerate() {
+                    for sch in 0..3u8 {
+                        for (mi, m) in msgs.iter().enumerate() {
+                            if (ki > 0 || mi > 0) && (ki + mi + sch as usize) % 3 != 0 {
+                                continue;
+                            }
+                            if let Ok(sg) = sk_of(k).sign(scheme_of(sch), m) {
+                                smp.push((format!("sign(sk={},{},msg={})", gen::hs(k), gen::SCH[sch as usize], codec_hexs(&m[..m.len().min(64)])), sg));
+                            }
+                        }
+                    }
+                }
+                if edge {
+                    smp.push(("identity_basic".into(), Signature::<C>::Basic(sg_id)));
+                    smp.push(("identity_aug".into(), Signature::<C>::MessageAugmentation(sg_id)));
+                    smp.push(("identity_pop".into(), Signature::<C>::ProofOfPossession(sg_id)));
+                }
+                let c = ctx.clone();
+                tys.push(codec_ty("signature", true, false, true, Some(codec_byte_ops::<Signature<C>>()), smp, |v: &Signature<C>| vec![codec_sgpt(v.as_raw_value())], move |v: &Signature<C>| {
+                    codec_consume![
+                        "verify" => v.verify(&c.pk2, &c.msg),
+                        "as_raw_value" => v.as_raw_value().to_bytes(),
+                        "same_scheme" => v.same_scheme(&c.sigs[0]),
+                        "aggregate_from_signatures" => AggregateSignature::<C>::from_signatures([*v, c.sigs2[0]]),
+                        "multi_from_signatures" => MultiSignature::<C>::from_signatures([c.sigs[2], *v]),
+                        "time_crypt_decrypt" => c.tc.decrypt(v),
+                        "display" => format!("{} {:?}", v, v),
+                    ]
+                }));
+            }
+            {
+                let mut smp: Vec<(String, AggregateSignature<C>)> = vec![];
+                for (ki, k) in keys.iter().enumerate() {
+                    for sch in 0..3u8 {
+                        if ki > 0 && (ki + sch as usize) % 3 != 0 {
+                            continue;
+                        }
+                        let a = sk_of(k).sign(scheme_of(sch), &ctx.msg);
+                        let b = ctx.sk.sign(scheme_of(sch), &ctx.msg2);
+                        if let (Ok(a), Ok(b)) = (a, b) {
+                            if let Ok(g) = AggregateSignature::<C>::from_signatures([a, b]) {
+                                smp.push((format!("aggregate(sk={},{})", gen::hs(k), gen::SCH[sch as usize]), g));
+                            }
+                        }
+                    }
+                }
+                if edge {
+                    smp.push(("identity_basic".into(), AggregateSignature::<C>::Basic(sg_id)));
+                    smp.push(("identity_aug".into(), AggregateSignature::<C>::MessageAugmentation(sg_id)));
+                    smp.push(("identity_pop".into(), AggregateSignature::<C>::ProofOfPossession(sg_id)));
+                }
+                let c = ctx.clone();
+                tys.push(codec_ty(
+                    "aggregate_signature", true, false, true, Some(codec_byte_ops::<AggregateSignature<C>>()), smp,
+                    |v: &AggregateSignature<C>| match v {
+                        AggregateSignature::Basic(p) | AggregateSignature::MessageAugmentation(p) | AggregateSignature::ProofOfPossession(p) => vec![codec_sgpt(p)],
+                    },
+                    move |v: &AggregateSignature<C>| {
+                        codec_consume![
+                            "verify" => v.verify(&[(c.pk, c.msg.clone()), (c.pk2, c.msg2.clone())]),
+                            "verify_empty" => v.verify::<Vec<u8>>(&[]),
+                            "display" => format!("{} {:?}", v, v),
+                        ]
+                    },
+                ));
+            }
+            {
+                let mut smp: Vec<(String, MultiSignature<C>)> = vec![];
+                for (ki, k) in keys.iter().enumerate() {
+                    for sch in [0u8, 2] {
+                        let a = sk_of(k).sign(scheme_of(sch), &ctx.msg);
+                        let b = ctx.sk.sign(scheme_of(sch), &ctx.msg);
+                        if let (Ok(a), Ok(b)) = (a, b) {
+                            if let Ok(g) = MultiSignature::<C>::from_signatures([a, b]) {
+                                smp.push((format!("multi(sk={},{})", gen::hs(k), gen::SCH[sch as usize]), g));
+                            }
+                        }
+                    }
+                    smp.push((format!("aug_point(sk={})", gen::hs(k)), MultiSignature::<C>::MessageAugmentation(codec_sg_of(k))));
+                }
+                if edge {
+                    smp.push(("identity_basic".into(), MultiSignature::<C>::Basic(sg_id)));
+                    smp.push(("identity_aug".into(), MultiSignature::<C>::MessageAugmentation(sg_id)));
+                    smp.push(("identity_pop".into(), MultiSignature::<C>::ProofOfPossession(sg_id)));
+                }
+                let c = ctx.clone();
+                tys.push(codec_ty("multi_signature", true, false, true, Some(codec_byte_ops::<MultiSignature<C>>()), smp, |v: &MultiSignature<C>| vec![codec_sgpt(v.as_raw_value())], move |v: &MultiSignature<C>| {
+                    codec_consume![
+                        "verify" => v.verify(c.mpk, &c.msg),
+                        "as_raw_value" => v.as_raw_value().to_bytes(),
+                        "display" => format!("{} {:?}", v, v),
+                    ]
+                }));
+            }
+            // ---- MultiPublicKey
+            {
+                let mut smp: Vec<(String, MultiPublicKey<C>)> = keys.iter().map(|k| (format!("mpk(ctx.pk,pk_of={})", gen::hs(k)), MultiPublicKey::<C>::from_public_keys([ctx.pk, sk_of(k).public_key()]))).collect();
+                if edge {
+                    smp.push(("identity".into(), MultiPublicKey::<C>(pk_id)));
+                }
+                let c = ctx.clone();
+                tys.push(codec_ty("multi_public_key", true, true, true, Some(codec_byte_ops::<MultiPublicKey<C>>()), smp, |v: &MultiPublicKey<C>| vec![codec_pkpt(&v.0)], move |v: &MultiPublicKey<C>| {
+                    codec_consume![
+                        "multi_signature_verify" => c.msig.verify(*v, &c.msg),
+                        "display" => format!("{} {:?}", v, v),
+                    ]
+                }));
+            }
+            // ---- ProofOfPossession
+            {
+                let mut smp: Vec<(String, ProofOfPossession<C>)> = keys.iter().filter_map(|k| sk_of(k).proof_of_possession().ok().map(|p| (format!("pop(sk={})", gen::hs(k)), p))).collect();
+                if edge {
+                    smp.push(("identity".into(), ProofOfPossession::<C>(sg_id)));
+                }
+                let c = ctx.clone();
+                tys.push(codec_ty("proof_of_possession", true, true, true, Some(codec_byte_ops::<ProofOfPossession<C>>()), smp, |v: &ProofOfPossession<C>| vec![codec_sgpt(&v.0)], move |v: &ProofOfPossession<C>| {
+                    codec_consume![
+                        "verify" => v.verify(c.pk),
+                        "display" => format!("{} {:?}", v, v),
+                    ]
+                }));
+            }
+            // ---- ProofCommitment
+            {
+                let mut smp: Vec<(String, ProofCommitment<C>)> = vec![];
+                for k in &keys {
+                    smp.push((format!("basic(point={})", gen::hs(k)), ProofCommitment::<C>::Basic(codec_sg_of(k))));
+                    if level >= 1 {
+                        smp.push((format!("aug(point={})", gen::hs(k)), ProofCommitment::<C>::MessageAugmentation(codec_sg_of(k))));
+                        smp.push((format!("pop(point={})", gen::hs(k)), ProofCommitment::<C>::ProofOfPossession(codec_sg_of(k))));
+                    }
+                }
+                if edge {
+                    for sch in 0..3usize {
+                        if let Ok((cm, _)) = ProofCommitment::<C>::generate(&ctx.msg, ctx.sigs[sch]) {
+                            smp.push((format!("generate({})", gen::SCH[sch]), cm));
+                        }
+                    }
+                    smp.push(("identity_basic".into(), ProofCommitment::<C>::Basic(sg_id)));
+                    smp.push(("identity_aug".into(), ProofCommitment::<C>::MessageAugmentation(sg_id)));
+                    smp.push(("identity_pop".into(), ProofCommitment::<C>::ProofOfPossession(sg_id)));
+                }
+                let c = ctx.clone();
+                tys.push(codec_ty(
+                    "proof_commitment", true, true, true, Some(codec_byte_ops::<ProofCommitment<C>>()), smp,
+                    |v: &ProofCommitment<C>| match v {
+                        ProofCommitment::Basic(p) | ProofCommitment::MessageAugmentation(p) | ProofCommitment::ProofOfPossession(p) => vec![codec_sgpt(p)],
+                    },
+                    move |v: &ProofCommitment<C>| {
+                        codec_consume![
+                            "finalize" => v.finalize(c.x, c.y, c.sigs[0]),
+                            "display" => format!("{} {:?}", v, v),
+                        ]
+                    },
+                ));
+            }
+            // ---- ProofCommitmentSecret / ProofCommitmentChallenge
+            {
+                let smp: Vec<(String, ProofCommitmentSecret<C>)> = keys.iter().map(|k| (format!("x={}", gen::hs(k)), ProofCommitmentSecret::<C>(bsc(&sc_be(k))))).collect();
+                let c = ctx.clone();
+                tys.push(codec_ty("proof_commitment_secret", true, true, true, Some(codec_byte_ops::<ProofCommitmentSecret<C>>()), smp, |_| vec![], move |v: &ProofCommitmentSecret<C>| {
+                    codec_consume![
+                        "to_be_bytes" => v.to_be_bytes(),
+                        "to_le_bytes" => v.to_le_bytes(),
+                        "finalize" => c.commitment.finalize(*v, c.y, c.sigs[0]),
+                    ]
+                }));
+                let mut smp: Vec<(String, ProofCommitmentChallenge<C>)> = keys.iter().map(|k| (format!("y={}", gen::hs(k)), ProofCommitmentChallenge::<C>(bsc(&sc_be(k))))).collect();
+                if edge {
+                    smp.push(("from_hash".into(), ProofCommitmentChallenge::<C>::from_hash(b"edge challenge")));
+                }
+                let c = ctx.clone();
+                tys.push(codec_ty("proof_commitment_challenge", true, true, true, Some(codec_byte_ops::<ProofCommitmentChallenge<C>>()), smp, |_| vec![], move |v: &ProofCommitmentChallenge<C>| {
+                    codec_consume![
+                        "to_be_bytes" => v.to_be_bytes(),
+                        "to_le_bytes" => v.to_le_bytes(),
+                        "finalize" => c.commitment.finalize(c.x, *v, c.sigs[0]),
+                        "pok_verify" => c.pok.verify(c.pk, &c.msg, *v),
+                    ]
+                }));
+            }
+            // ---- ProofOfKnowledge / ProofOfKnowledgeTimestamp
+            {
+                fn pts(v: &ProofOfKnowledge<C>) -> Vec<CodecPoint> {
+                    match v {
+                        ProofOfKnowledge::Basic { u, v } | ProofOfKnowledge::MessageAugmentation { u, v } | ProofOfKnowledge::ProofOfPossession { u, v } => vec![codec_sgpt(u), codec_sgpt(v)],
+                    }
+                }
+                let mut smp: Vec<(String, ProofOfKnowledge<C>)> = vec![("ctx_basic".into(), ctx.pok)];
+                let mut smt: Vec<(String, ProofOfKnowledgeTimestamp<C>)> = vec![("ctx_basic".into(), ctx.pokt)];
+                if level >= 1 {
+                    for (ki, k) in keys.iter().enumerate() {
+                        let (u, v) = (codec_sg_of(k), codec_sg_of(&(k + RScalar::from(7u64))));
+                        smp.push((format!("aug(u={},v=u+7)", gen::hs(k)), ProofOfKnowledge::<C>::MessageAugmentation { u, v }));
+                        smp.push((format!("pop(u={},v=u+7)", gen::hs(k)), ProofOfKnowledge::<C>::ProofOfPossession { u, v }));
+                        for ts in [0u64, 1, 1 << 63, u64::MAX, rng.next()] {
+                            smt.push((format!("basic(u={},v=u+7,ts={})", gen::hs(k), ts), ProofOfKnowledgeTimestamp::<C> { proof: ProofOfKnowledge::Basic { u, v }, timestamp: ts }));
+                        }
+                    }
+                }
+                if edge {
+                    for sch in 0..3usize {
+                        if let Ok((cm, x)) = ProofCommitment::<C>::generate(&ctx.msg, ctx.sigs[sch]) {
+                            if let Ok(p) = cm.finalize(x, ctx.y, ctx.sigs[sch]) {
+                                smp.push((format!("finalize({})", gen::SCH[sch]), p));
+                            }
+                        }
+                        if let Ok(p) = ProofOfKnowledgeTimestamp::<C>::generate(&ctx.msg, ctx.sigs[sch]) {
+                            smt.push((format!("generate({})", gen::SCH[sch]), p));
+                        }
+                    }
+                    smp.push(("identity_basic".into(), ProofOfKnowledge::<C>::Basic { u: sg_id, v: sg_id }));
+                    smp.push(("identity_pop_default".into(), ProofOfKnowledge::<C>::default()));
+                    smt.push(("default".into(), ProofOfKnowledgeTimestamp::<C>::default()));
+                    smt.push(("identity_aug_max".into(), ProofOfKnowledgeTimestamp::<C> { proof: ProofOfKnowledge::MessageAugmentation { u: sg_id, v: sg_id }, timestamp: u64::MAX }));
+                }
+                let c = ctx.clone();
+                tys.push(codec_ty("proof_of_knowledge", true, false, true, Some(codec_byte_ops::<ProofOfKnowledge<C>>()), smp, pts, move |v: &ProofOfKnowledge<C>| {
+                    codec_consume![
+                        "verify" => v.verify(c.pk, &c.msg, c.y),
+                        "display" => format!("{} {:?}", v, v),
+                    ]
+                }));
+                let c = ctx.clone();
+                tys.push(codec_ty("proof_of_knowledge_timestamp", true, false, true, Some(codec_byte_ops::<ProofOfKnowledgeTimestamp<C>>()), smt, |v: &ProofOfKnowledgeTimestamp<C>| pts(&v.proof), move |v: &ProofOfKnowledgeTimestamp<C>| {
+                    codec_consume![
+                        "verify_no_timeout" => v.verify(c.pk, &c.msg, None),
+                        "verify_with_timeout" => v.verify(c.pk, &c.msg, Some(60_000)),
+                        "display" => format!("{} {:?}", v, v),
+                    ]
+                }));
+            }
+            // ---- SecretKeyShare
+            {
+                let mut smp: Vec<(String, SecretKeyShare<C>)> = ctx.shares.iter().enumerate().map(|(i, s)| (format!("ctx_share{i}"), s.clone())).collect();
+                for (n, &id) in ids.iter().enumerate() {
+                    let k = keys[n % keys.len()];
+                    let mut a = [0u8; 33];
+                    a[0] = id;
+                    let mut le = sc_be(&k);
+                    le.reverse();
+                    a[1..].copy_from_slice(&le);
+                    smp.push((format!("id={id},value={}", gen::hs(&k)), SecretKeyShare::<C>(a)));
+                }
+                let c = ctx.clone();
+                tys.push(codec_ty("secret_key_share", true, false, true, Some(codec_byte_ops::<SecretKeyShare<C>>()), smp, |_| vec![], move |v: &SecretKeyShare<C>| {
+                    codec_consume![
+                        "public_key" => v.public_key(),
+                        "sign_basic" => v.sign(SignatureSchemes::Basic, &c.msg),
+                        "sign_aug" => v.sign(SignatureSchemes::MessageAugmentation, &c.msg),
+                        "sign_pop" => v.sign(SignatureSchemes::ProofOfPossession, &c.msg),
+                        "as_raw_value" => v.as_raw_value().identifier(),
+                        "combine" => SecretKey::<C>::combine(&[c.shares[0].clone(), v.clone()]),
+                        "combine_alone" => SecretKey::<C>::combine(&[v.clone()]),
+                        "create_decryption_share" => c.sc.create_decryption_share(v),
+                    ]
+                }));
+            }
+            // ---- PublicKeyShare / SignDecryptionShare / ElGamalDecryptionShare (public-key group containers)
+            {
+                let mut raw: Vec<(String, CodecPkShare)> = vec![];
+                for (n, &id) in ids.iter().enumerate() {
+                    let k = keys[n % keys.len()];
+                    if let Some(sh) = codec_pk_share(id, &codec_pkpt(&codec_pk_of(&k)).1) {
+                        raw.push((format!("id={id},point={}", gen::hs(&k)), sh));
+                    }
+                }
+                if edge {
+                    if let Some(sh) = codec_pk_share(7, &codec_pkpt(&pk_id).1) {
+                        raw.push(("id=7,identity".into(), sh));
+                    }
+                }
+                let mut smp: Vec<(String, PublicKeyShare<C>)> = ctx.pkshares.iter().enumerate().map(|(i, s)| (format!("ctx_share{i}"), *s)).collect();
+                smp.extend(raw.iter().map(|(l, s)| (l.clone(), PublicKeyShare::<C>(*s))));
+                let c = ctx.clone();
+                tys.push(codec_ty("public_key_share", true, false, false, Some(codec_byte_ops::<PublicKeyShare<C>>()), smp, |_| vec![], move |v: &PublicKeyShare<C>| {
+                    codec_consume![
+                        "verify" => v.verify(&c.sigshares[0], &c.msg),
+                        "signature_share_verify" => c.sigshares[1].verify(v, &c.msg),
+                        "public_key_from_shares" => PublicKey::<C>::from_shares(&[c.pkshares[0], *v]),
+                        "public_key_from_shares_alone" => PublicKey::<C>::from_shares(&[*v]),
+                        "sign_decryption_share_verify" => c.sds[0].verify(v, &c.sc),
+                        "display" => format!("{} {:?}", v, v),
+                    ]
+                }));
+                let mut smp: Vec<(String, SignDecryptionShare<C>)> = ctx.sds.iter().enumerate().map(|(i, s)| (format!("ctx_share{i}"), s.clone())).collect();
+                smp.extend(raw.iter().map(|(l, s)| (l.clone(), SignDecryptionShare::<C>(*s))));
+                let c = ctx.clone();
+                tys.push(codec_ty("sign_decryption_share", true, false, false, Some(codec_byte_ops::<SignDecryptionShare<C>>()), smp, |_| vec![], move |v: &SignDecryptionShare<C>| {
+                    codec_consume![
+                        "verify" => v.verify(&c.pkshares[0], &c.sc),
+                        "decryption_key_from_shares" => SignCryptDecryptionKey::<C>::from_shares(&[c.sds[0].clone(), v.clone()]),
+                        "decryption_key_from_shares_alone" => SignCryptDecryptionKey::<C>::from_shares(&[v.clone()]),
+                        "decrypt_with_shares" => c.sc.decrypt_with_shares([c.sds[0].clone(), v.clone()]),
+                        "debug" => format!("{:?}", v),
+                    ]
+                }));
+                let mut smp: Vec<(String, ElGamalDecryptionShare<C>)> = ctx.egds.iter().enumerate().map(|(i, s)| (format!("ctx_share{i}"), s.clone())).collect();
+                smp.extend(raw.iter().map(|(l, s)| (l.clone(), ElGamalDecryptionShare::<C>(*s))));
+                let c = ctx.clone();
+                tys.push(codec_ty("el_gamal_decryption_share", true, false, false, Some(codec_byte_ops::<ElGamalDecryptionShare<C>>()), smp, |_| vec![], move |v: &ElGamalDecryptionShare<C>| {
+                    codec_consume![
+                        "decryption_key_from_shares" => ElGamalDecryptionKey::<C>::from_shares(&[c.egds[0].clone(), v.clone()]),
+                        "decryption_key_from_shares_alone" => ElGamalDecryptionKey::<C>::from_shares(&[v.clone()]),
+                        "debug" => format!("{:?}", v),
+                    ]
+                }));
+            }
+            // ---- SignatureShare
+            {
+                let mut smp: Vec<(String, SignatureShare<C>)> = ctx.sigshares.iter().enumerate().map(|(i, s)| (format!("ctx_share{i}"), *s)).collect();
+                if level >= 1 {
+                    if let Ok(s) = ctx.shares[0].sign(SignatureSchemes::ProofOfPossession, &ctx.msg) {
+                        smp.push(("ctx_share0_pop".into(), s));
+                    }
+                }
+                for (n, &id) in ids.iter().enumerate() {
+                    let k = keys[n % keys.len()];
+                    if let Some(sh) = codec_sg_share(id, &codec_sgpt(&codec_sg_of(&k)).1) {
+                        let v = match n % 3 {
+                            0 => SignatureShare::<C>::Basic(sh),
+                            1 => SignatureShare::<C>::MessageAugmentation(sh),
+                            _ => SignatureShare::<C>::ProofOfPossession(sh),
+                        };
+                        smp.push((format!("{},id={id},point={}", gen::SCH[n % 3], gen::hs(&k)), v));
+                    }
+                }
+                if edge {
+                    smp.push(("default".into(), SignatureShare::<C>::default()));
+                }
+                let c = ctx.clone();
+                tys.push(codec_ty("signature_share", true, false, false, Some(codec_byte_ops::<SignatureShare<C>>()), smp, |_| vec![], move |v: &SignatureShare<C>| {
+                    codec_consume![
+                        "verify" => v.verify(&c.pkshares[0], &c.msg),
+                        "public_key_share_verify" => c.pkshares[1].verify(v, &c.msg),
+                        "signature_from_shares" => Signature::<C>::from_shares(&[c.sigshares[0], *v]),
+                        "signature_from_shares_alone" => Signature::<C>::from_shares(&[*v]),
+                        "as_raw_value" => v.as_raw_value().identifier(),
+                        "same_scheme" => v.same_scheme(&c.sigshares[0]),
+                        "display" => format!("{} {:?}", v, v),
+                    ]
+                }));
+            }
+            // ---- SignCryptCiphertext / SignCryptDecryptionKey
+            {
+                let mut smp: Vec<(String, SignCryptCiphertext<C>)> = vec![("ctx_basic".into(), ctx.sc.clone())];
+                if level >= 1 {
+                    for sch in 0..3u8 {
+                        for m in &msgs {
+                            smp.push((format!("sign_crypt({},msg_len={})", gen::SCH[sch as usize], m.len()), ctx.pk.sign_crypt(scheme_of(sch), m)));
+                        }
+                    }
+                }
+                if edge {
+                    for (lab, v) in [("empty", vec![]), ("one", vec![7u8]), ("large", rng.bytes(if thorough { 100_000 } else { 10_000 }))] {
+                        smp.push((format!("fields(v={lab})"), SignCryptCiphertext::<C> { u: ctx.sc.u, v, w: ctx.sc.w, scheme: SignatureSchemes::MessageAugmentation }));
+                    }
+                    smp.push(("identity_points".into(), SignCryptCiphertext::<C> { u: pk_id, v: vec![1, 2, 3], w: sg_id, scheme: SignatureSchemes::Basic }));
+                    smp.push(("default".into(), SignCryptCiphertext::<C>::default()));
+                }
+                let c = ctx.clone();
+                tys.push(codec_ty("sign_crypt_ciphertext", false, false, true, Some(codec_byte_ops::<SignCryptCiphertext<C>>()), smp, |v: &SignCryptCiphertext<C>| vec![codec_pkpt(&v.u), codec_sgpt(&v.w)], move |v: &SignCryptCiphertext<C>| {
+                    codec_consume![
+                        "decrypt" => v.decrypt(&c.sk),
+                        "is_valid" => v.is_valid(),
+                        "decrypt_with_shares" => v.decrypt_with_shares(&c.sds[..2]),
+                        "decrypt_with_no_shares" => v.decrypt_with_shares::<&[SignDecryptionShare<C>]>(&[]),
+                        "create_decryption_share" => v.create_decryption_share(&c.shares[0]),
+                        "decryption_key_decrypt" => c.sdk.decrypt(v),
+                        "sign_decryption_key" => c.sk.sign_decryption_key::<&[u8]>(v).decrypt(v),
+                        "decryption_share_verify" => c.sds[0].verify(&c.pkshares[0], v),
+                        "display" => format!("{} {:?}", v, v),
+                    ]
+                }));
+                let mut smp: Vec<(String, SignCryptDecryptionKey<C>)> = vec![("ctx".into(), ctx.sdk.clone())];
+                if level >= 1 {
+                    if let Ok(k) = SignCryptDecryptionKey::<C>::from_shares(&ctx.sds[1..]) {
+                        smp.push(("from_shares".into(), k));
+                    }
+                    smp.extend(keys.iter().map(|k| (format!("point={}", gen::hs(k)), SignCryptDecryptionKey::<C>(codec_pk_of(k)))));
+                }
+                if edge {
+                    smp.push(("identity".into(), SignCryptDecryptionKey::<C>(pk_id)));
+                }
+                let c = ctx.clone();
+                tys.push(codec_ty("sign_crypt_decryption_key", true, false, true, Some(codec_byte_ops::<SignCryptDecryptionKey<C>>()), smp, |v: &SignCryptDecryptionKey<C>| vec![codec_pkpt(&v.0)], move |v: &SignCryptDecryptionKey<C>| {
+                    codec_consume![
+                        "decrypt" => v.decrypt(&c.sc),
+                        "debug" => format!("{:?}", v),
+                    ]
+                }));
+            }
+            // ---- TimeCryptCiphertext
+            {
+                let mut smp: Vec<(String, TimeCryptCiphertext<C>)> = vec![("ctx_basic".into(), ctx.tc.clone())];
+                if level >= 1 {
+                    for sch in 0..3u8 {
+                        for m in &msgs {
+                            if let Ok(t) = ctx.pk.encrypt_time_lock(scheme_of(sch), m, &ctx.tc_id) {
+                                smp.push((format!("encrypt_time_lock({},msg_len={})", gen::SCH[sch as usize], m.len()), t));
+                            }
+                        }
+                    }
+                }
+                if edge {
+                    for (lab, w) in [("empty", vec![]), ("one", vec![7u8]), ("large", rng.bytes(if thorough { 100_000 } else { 10_000 }))] {
+                        smp.push((format!("fields(w={lab})"), TimeCryptCiphertext::<C> { u: ctx.tc.u, v: ctx.tc.v, w, scheme: SignatureSchemes::MessageAugmentation }));
+                    }
+                    smp.push(("identity_u".into(), TimeCryptCiphertext::<C> { u: pk_id, v: [0xff; 32], w: vec![0; 40], scheme: SignatureSchemes::Basic }));
+                    smp.push(("default".into(), TimeCryptCiphertext::<C>::default()));
+                }
+                let c = ctx.clone();
+                tys.push(codec_ty("time_crypt_ciphertext", false, false, true, Some(codec_byte_ops::<TimeCryptCiphertext<C>>()), smp, |v: &TimeCryptCiphertext<C>| vec![codec_pkpt(&v.u)], move |v: &TimeCryptCiphertext<C>| {
+                    codec_consume![
+                        "decrypt" => v.decrypt(&c.tc_sig),
+                        "decrypt_other_scheme" => v.decrypt(&c.sigs[2]),
+                        "debug" => format!("{:?}", v),
+                    ]
+                }));
+            }
+            // ---- ElGamalCiphertext / ElGamalProof / ElGamalDecryptionKey
+            {
+                let mut smp: Vec<(String, ElGamalCiphertext<C>)> = vec![("ctx".into(), ctx.eg)];
+                let mut smq: Vec<(String, ElGamalProof<C>)> = vec![("ctx".into(), ctx.egp)];
+                if level >= 1 {
+                    for k in &keys {
+                        let ct = ElGamalCiphertext::<C> { c1: codec_pk_of(k), c2: codec_pk_of(&(k + RScalar::from(5u64))) };
+                        smp.push((format!("c1={},c2=c1+5", gen::hs(k)), ct));
+                        let z = bsc(&sc_be(k));
+                        smq.push((format!("ctx_ciphertext,scalars={}", gen::hs(k)), ElGamalProof::<C> { ciphertext: ctx.eg, message_proof: z, blinder_proof: z, challenge: z }));
+                        if edge {
+                            if let Ok(e) = ctx.pk.encrypt_key_el_gamal(&sk_of(k)) {
+                                smp.push((format!("encrypt(sk={})", gen::hs(k)), e));
+                            }
+                            if let Ok(e) = ctx.pk.encrypt_key_el_gamal_with_proof(&sk_of(k)) {
+                                smq.push((format!("encrypt_with_proof(sk={})", gen::hs(k)), e));
+                            }
+                        }
+                    }
+                }
+                if edge {
+                    smp.push(("identity_c1".into(), ElGamalCiphertext::<C> { c1: pk_id, c2: ctx.eg.c2 }));
+                    smp.push(("identity_both".into(), ElGamalCiphertext::<C>::default()));
+                    smq.push(("identity_c2_mixed_scalars".into(), ElGamalProof::<C> { ciphertext: ElGamalCiphertext { c1: ctx.eg.c1, c2: pk_id }, message_proof: bsc(&sc_be(&RScalar::ONE)), blinder_proof: bsc(&sc_be(&-RScalar::ONE)), challenge: ctx.egp.challenge }));
+                }
+                let c = ctx.clone();
+                tys.push(codec_ty("el_gamal_ciphertext", true, false, true, Some(codec_byte_ops::<ElGamalCiphertext<C>>()), smp, |v: &ElGamalCiphertext<C>| vec![codec_pkpt(&v.c1), codec_pkpt(&v.c2)], move |v: &ElGamalCiphertext<C>| {
+                    codec_consume![
+                        "decrypt" => v.decrypt(&c.sk),
+                        "decryption_key_decrypt" => c.egdk.decrypt(v),
+                        "add" => *v + c.eg,
+                        "display" => format!("{} {:?}", v, v),
+                    ]
+                }));
+                let c = ctx.clone();
+                tys.push(codec_ty("el_gamal_proof", true, false, true, Some(codec_byte_ops::<ElGamalProof<C>>()), smq, |v: &ElGamalProof<C>| vec![codec_pkpt(&v.ciphertext.c1), codec_pkpt(&v.ciphertext.c2)], move |v: &ElGamalProof<C>| {
+                    codec_consume![
+                        "verify" => v.verify(c.pk),
+                        "verify_and_decrypt" => v.verify_and_decrypt(&c.sk),
+                        "display" => format!("{} {:?}", v, v),
+                    ]
+                }));
+                let mut smp: Vec<(String, ElGamalDecryptionKey<C>)> = vec![("ctx_from_shares".into(), ctx.egdk.clone())];
+                if level >= 1 {
+                    smp.extend(keys.iter().map(|k| (format!("point={}", gen::hs(k)), ElGamalDecryptionKey::<C>(codec_pk_of(k)))));
+                }
+                if edge {
+                    smp.push(("identity".into(), ElGamalDecryptionKey::<C>(pk_id)));
+                }
+                let c = ctx.clone();
+                tys.push(codec_ty("el_gamal_decryption_key", true, false, true, Some(codec_byte_ops::<ElGamalDecryptionKey<C>>()), smp, |v: &ElGamalDecryptionKey<C>| vec![codec_pkpt(&v.0)], move |v: &ElGamalDecryptionKey<C>| {
+                    codec_consume![
+                        "decrypt" => v.decrypt(&c.eg),
+                    ]
+                }));
+            }
+            tys
+        }
+
+        pub fn c15(s: &mut Search, rng: &mut Prng, thorough: bool) {
+            let mut rec = CodecRec::new(s, CODEC_IMPL, 2);
+            let Some(ctx) = codec_ctx(rng) else {
+                rec.case("codec_companions_panicked", "ctx".into(), false, json!({"impl": CODEC_IMPL}));
+                return;
+            };
+            let tys = codec_types(rng, 2, thorough, &ctx);
+            codec_run_c15(&mut rec, &tys);
+            // big/little-endian scalar codecs
+            let mut keys = gen::edge_scalars();
+            for _ in 0..(if thorough { 64 } else { 8 }) {
+                keys.push(rng.scalar());
+            }
+            for k in &keys {
+                codec_c15_scalar_type!(rec, k, SecretKey, "secret_key");
+                codec_c15_scalar_type!(rec, k, ProofCommitmentSecret, "proof_commitment_secret");
+                codec_c15_scalar_type!(rec, k, ProofCommitmentChallenge, "proof_commitment_challenge");
+            }
+            if G1 {
+                let tys = codec_nongeneric_types(rng, 2, thorough);
+                codec_run_c15(&mut rec, &tys);
+                codec_c15_small(&mut rec, rng, thorough);
+            }
+            rec.finish();
+        }
+
+        /// share containers carrying an invalid point payload must be refused when used
+        pub fn codec_c16_shares(rec: &mut CodecRec, rng: &mut Prng, ctx: &CodecRc<CodecCtx>, bad_pk: &[CodecBad], bad_sg: &[CodecBad], thorough: bool) {
+            fn expect_err(rec: &mut CodecRec, class: &str, key: String, det: serde_json::Value, r: Result<bool, ()>) {
+                match r {
+                    Ok(is_err) => rec.case(class, key, is_err, det),
+                    Err(()) => rec.case(&format!("{class}_panicked"), key, false, det),
+                }
+            }
+            let npos = if thorough { 3 } else { 2 };
+            for (bi, bad) in bad_pk.iter().enumerate() {
+                for pos in 0..npos {
+                    for n in [2usize, 3] {
+                        if pos >= n {
+                            continue;
+                        }
+                        let id = ctx.pkshares[pos].0.identifier();
+                        let Some(raw) = codec_pk_share(id, &bad.bytes) else { continue };
+                        let key = format!("{}#{}|pos{}|n{}", bad.kind, bi, pos, n);
+                        let det = json!({"impl": CODEC_IMPL, "kind": bad.kind, "payload": hex::encode(&bad.bytes), "identifier": id, "position": pos, "shares": n,
+                                         "other_shares": ctx.pkshares[..n].iter().map(|s| hex::encode(Vec::<u8>::from(s))).collect::<Vec<_>>()});
+                        // PublicKey::from_shares
+                        let mut v: Vec<PublicKeyShare<C>> = ctx.pkshares[..n].to_vec();
+                        v[pos] = PublicKeyShare::<C>(raw);
+                        expect_err(rec, "public_key_from_shares_rejects_invalid_payload", key.clone(), det.clone(), codec_catch(|| PublicKey::<C>::from_shares(&v).is_err()));
+                        // SignCryptDecryptionKey::from_shares
+                        let mut v: Vec<SignDecryptionShare<C>> = ctx.sds[..n].to_vec();
+                        v[pos] = SignDecryptionShare::<C>(raw);
+                        expect_err(rec, "sign_crypt_decryption_key_from_shares_rejects_invalid_payload", key.clone(), det.clone(), codec_catch(|| SignCryptDecryptionKey::<C>::from_shares(&v).is_err()));
+                        // decrypt_with_shares on the matching valid ciphertext
+                        let mut d = det.clone();
+                        d["ciphertext"] = json!(hex::encode(Vec::<u8>::from(&ctx.sc)));
+                        d["invalid_share"] = json!(hex::encode(Vec::<u8>::from(&v[pos])));
+                        match codec_catch(|| Option::<Vec<u8>>::from(ctx.sc.decrypt_with_shares(&v))) {
+                            Ok(out) => {
+                                d["returned"] = json!(out.as_ref().map(hex::encode));
+                                rec.case("sign_crypt_ciphertext_decrypt_with_shares_rejects_invalid_payload", key.clone(), out.is_none(), d)
+                            }
+                            Err(()) => rec.case("sign_crypt_ciphertext_decrypt_with_shares_rejects_invalid_payload_panicked", key.clone(), false, d),
+                        }
+                        // ElGamalDecryptionKey::from_shares
+                        let mut v: Vec<ElGamalDecryptionShare<C>> = ctx.egds[..n].to_vec();
+                        v[pos] = ElGamalDecryptionShare::<C>(raw);
+                        expect_err(rec, "el_gamal_decryption_key_from_shares_rejects_invalid_payload", key.clone(), det.clone(), codec_catch(|| ElGamalDecryptionKey::<C>::from_shares(&v).is_err()));
+                    }
+                }
+                // verification entry points
+                let id = ctx.pkshares[0].0.identifier();
+                if let Some(raw) = codec_pk_share(id, &bad.bytes) {
+                    let key = format!("{}#{}", bad.kind, bi);
+                    let det = json!({"impl": CODEC_IMPL, "kind": bad.kind, "payload": hex::encode(&bad.bytes), "identifier": id});
+                    let pks = PublicKeyShare::<C>(raw);
+                    let mut d = det.clone();
+                    d["invalid"] = json!("public key share");
+                    expect_err(rec, "public_key_share_verify_rejects_invalid_payload", format!("{key}|pks"), d.clone(), codec_catch(|| pks.verify(&ctx.sigshares[0], &ctx.msg).is_err()));
+                    expect_err(rec, "signature_share_verify_rejects_invalid_payload", format!("{key}|pks"), d.clone(), codec_catch(|| ctx.sigshares[0].verify(&pks, &ctx.msg).is_err()));
+                    expect_err(rec, "sign_decryption_share_verify_rejects_invalid_payload", format!("{key}|pks"), d, codec_catch(|| ctx.sds[0].verify(&pks, &ctx.sc).is_err()));
+                    let mut d = det.clone();
+                    d["invalid"] = json!("decryption share");
+                    let sds = SignDecryptionShare::<C>(raw);
+                    expect_err(rec, "sign_decryption_share_verify_rejects_invalid_payload", format!("{key}|sds"), d, codec_catch(|| sds.verify(&ctx.pkshares[0], &ctx.sc).is_err()));
+                }
+            }
+            for (bi, bad) in bad_sg.iter().enumerate() {
+                for pos in 0..npos {
+                    for n in [2usize, 3] {
+                        if pos >= n {
+                            continue;
+                        }
+                        let id = ctx.sigshares[pos].as_raw_value().identifier();
+                        let Some(raw) = codec_sg_share(id, &bad.bytes) else { continue };
+                        for sch in 0..3u8 {
+                            let key = format!("{}#{}|pos{}|n{}|{}", bad.kind, bi, pos, n, sch);
+                            let det = json!({"impl": CODEC_IMPL, "kind": bad.kind, "payload": hex::encode(&bad.bytes), "identifier": id, "position": pos, "shares": n, "scheme": gen::SCH[sch as usize]});
+                            let wrap = |s: CodecSgShare| match sch {
+                                0 => SignatureShare::<C>::Basic(s),
+                                1 => SignatureShare::<C>::MessageAugmentation(s),
+                                _ => SignatureShare::<C>::ProofOfPossession(s),
+                            };
+                            let mut v: Vec<SignatureShare<C>> = ctx.sigshares[..n].iter().map(|s| wrap(*s.as_raw_value())).collect();
+                            v[pos] = wrap(raw);
+                            expect_err(rec, "signature_from_shares_rejects_invalid_payload", key.clone(), det.clone(), codec_catch(|| Signature::<C>::from_shares(&v).is_err()));
+                            if pos == 0 && n == 2 {
+                                let mut d = det.clone();
+                                d["invalid"] = json!("signature share");
+                                expect_err(rec, "public_key_share_verify_rejects_invalid_payload", format!("{key}|sig"), d.clone(), codec_catch(|| ctx.pkshares[0].verify(&v[0], &ctx.msg).is_err()));
+                                expect_err(rec, "signature_share_verify_rejects_invalid_payload", format!("{key}|sig"), d, codec_catch(|| v[0].verify(&ctx.pkshares[0], &ctx.msg).is_err()));
+                            }
+                        }
+                    }
+                }
+            }
+            // decrypt_with_shares: fresh ciphertexts of assorted sizes, one invalid share among honest ones
+            let nct = if thorough { 48 } else { 12 };
+            for t in 0..nct {
+                let class = "sign_crypt_ciphertext_decrypt_with_shares_rejects_invalid_payload";
+                if !rec.open(class) {
+                    break;
+                }
+                let len = [0usize, 1, 5, 31, 32, 33, 64, 100, 200, 500][t % 10];
+                let m = rng.bytes(len);
+                let bad = &bad_pk[t % bad_pk.len()];
+                let r = codec_catch(|| {
+                    let ct = ctx.pk.sign_crypt(scheme_of((t % 3) as u8), &m);
+                    let mut v: Vec<SignDecryptionShare<C>> = ctx.shares[..2].iter().map(|s| ct.create_decryption_share(s).unwrap()).collect();
+                    let id = v[1].0.identifier();
+                    v[1] = SignDecryptionShare::<C>(codec_pk_share(id, &bad.bytes).unwrap());
+                    let out: Option<Vec<u8>> = ct.decrypt_with_shares(&v).into();
+                    (out, hex::encode(Vec::<u8>::from(&ct)), v.iter().map(|s| hex::encode(Vec::<u8>::from(s))).collect::<Vec<_>>())
+                });
+                match r {
+                    Ok((out, ct, shares)) => {
+                        let det = json!({"impl": CODEC_IMPL, "kind": bad.kind, "payload": hex::encode(&bad.bytes), "plaintext": hex::encode(&m), "ciphertext": ct, "shares": shares,
+                                         "returned": out.as_ref().map(hex::encode)});
+                        rec.case(class, format!("fresh{t}"), out.is_none(), det)
+                    }
+                    Err(()) => rec.case(&format!("{class}_panicked"), format!("fresh{t}"), false, json!({"impl": CODEC_IMPL, "kind": bad.kind, "payload": hex::encode(&bad.bytes), "plaintext": hex::encode(&m)})),
+                }
+            }
+        }
+
+        pub fn c16(s: &mut Search, rng: &mut Prng, thorough: bool) {
+            let mut rec = CodecRec::new(s, CODEC_IMPL, 2);
+            let Some(ctx) = codec_ctx(rng) else {
+                rec.case("codec_companions_panicked", "ctx".into(), false, json!({"impl": CODEC_IMPL}));
+                return;
+            };
+            let nbad = if thorough { 12 } else { 4 };
+            let bad_g1 = codec_bad_points(rng, true, nbad);
+            let bad_g2 = codec_bad_points(rng, false, nbad);
+            let tys = codec_types(rng, if thorough { 1 } else { 0 }, thorough, &ctx);
+            codec_run_c16(&mut rec, rng, &tys, &bad_g1, &bad_g2, thorough);
+            codec_c16_scalar_type!(rec, rng, thorough, SecretKey, "secret_key");
+            codec_c16_scalar_type!(rec, rng, thorough, ProofCommitmentSecret, "proof_commitment_secret");
+            codec_c16_scalar_type!(rec, rng, thorough, ProofCommitmentChallenge, "proof_commitment_challenge");
+            let (bad_pk, bad_sg) = if G1 { (&bad_g2, &bad_g1) } else { (&bad_g1, &bad_g2) };
+            codec_c16_shares(&mut rec, rng, &ctx, bad_pk, bad_sg, thorough);
+            if G1 {
+                let tys = codec_nongeneric_types(rng, if thorough { 1 } else { 0 }, thorough);
+                codec_run_c16(&mut rec, rng, &tys, &bad_g1, &bad_g2, thorough);
+                codec_c16_secret_key_enum(&mut rec);
+            }
+            rec.finish();
+        }
+
+        /// ProofOfKnowledgeTimestamp::verify over edge timestamps x timeouts (past ones first)
+        pub fn codec_c17_timestamps(rec: &mut CodecRec, ctx: &CodecRc<CodecCtx>) {
+            use std::time::{SystemTime, UNIX_EPOCH};
+            for sch in 0..3usize {
+                let Ok(Ok(base)) = codec_catch(|| ProofOfKnowledgeTimestamp::<C>::generate(&ctx.msg, ctx.sigs[sch])) else {
+                    rec.case("proof_of_knowledge_timestamp_generate_panicked", format!("{sch}"), false, json!({"impl": CODEC_IMPL, "scheme": gen::SCH[sch]}));
+                    continue;
+                };
+                let now = SystemTime::now().duration_since(UNIX_EPOCH).map(|d| d.as_millis() as u64).unwrap_or(0);
+                let stamps: Vec<(&str, u64)> = vec![("0", 0), ("1", 1), ("now-1", now.saturating_sub(1)), ("own", base.timestamp), ("now+1", now + 1), ("now+10^6", now + 1_000_000), ("2^63", 1 << 63), ("u64::MAX", u64::MAX)];
+                for (tl, ts) in &stamps {
+                    for (ol, to) in [("None", None), ("Some(0)", Some(0u64)), ("Some(1)", Some(1)), ("Some(u64::MAX)", Some(u64::MAX))] {
+                        let class = if to.is_some() { "proof_of_knowledge_timestamp_verify_with_timeout" } else { "proof_of_knowledge_timestamp_verify_no_timeout" };
+                        let p = ProofOfKnowledgeTimestamp::<C> { proof: base.proof, timestamp: *ts };
+                        let ok = codec_catch(|| {
+                            let _ = p.verify(ctx.pk, &ctx.msg, to);
+                        })
+                        .is_ok();
+                        let det = json!({"impl": CODEC_IMPL, "scheme": gen::SCH[sch], "timestamp": ts, "timestamp_label": tl, "timeout_ms": ol, "now_ms": now,
+                                         "proof": hex::encode(Vec::<u8>::from(&p)), "pk": hex::encode(Vec::<u8>::from(&ctx.pk)), "msg": gen::hx(&ctx.msg)});
+                        rec.case(class, format!("{sch}|{tl}|{ol}"), ok, det);
+                    }
+                }
+            }
+        }
+
+        /// ciphertexts whose variable-length component has length 0, 1, 2, 31, 32
+        pub fn codec_c17_short_payloads(rec: &mut CodecRec, rng: &mut Prng, ctx: &CodecRc<CodecCtx>, thorough: bool) {
+            for len in [0usize, 1, 2, 31, 32] {
+                for sch in 0..3u8 {
+                    let v = rng.bytes(len);
+                    let ct = SignCryptCiphertext::<C> { u: ctx.sc.u, v: v.clone(), w: ctx.sc.w, scheme: scheme_of(sch) };
+                    let det = json!({"impl": CODEC_IMPL, "v_len": len, "scheme": gen::SCH[sch as usize], "ciphertext": hex::encode(Vec::<u8>::from(&ct)), "sk": gen::hs(&ctx.k1)});
+                    let key = format!("{len}|{sch}");
+                    rec.case("sign_crypt_ciphertext_decrypt_short_v", key.clone(), codec_catch(|| { let _ = ct.decrypt(&ctx.sk); }).is_ok(), det.clone());
+                    rec.case("sign_crypt_ciphertext_is_valid_short_v", key.clone(), codec_catch(|| { let _ = ct.is_valid(); }).is_ok(), det.clone());
+                    rec.case("sign_crypt_ciphertext_decrypt_with_shares_short_v", key.clone(), codec_catch(|| { let _ = ct.decrypt_with_shares(&ctx.sds[..2]); }).is_ok(), det.clone());
+                    rec.case("sign_crypt_decryption_key_decrypt_short_v", key.clone(), codec_catch(|| { let _ = ctx.sdk.decrypt(&ct); }).is_ok(), det.clone());
+                    rec.case("sign_decryption_share_verify_short_v", key.clone(), codec_catch(|| { let _ = ctx.sds[0].verify(&ctx.pkshares[0], &ct); }).is_ok(), det.clone());
+                    rec.case("sign_crypt_ciphertext_create_decryption_share_short_v", key.clone(), codec_catch(|| { let _ = ct.create_decryption_share(&ctx.shares[0]); }).is_ok(), det);
+
+                    let w = rng.bytes(len);
+                    let tc = TimeCryptCiphertext::<C> { u: ctx.tc.u, v: ctx.tc.v, w, scheme: scheme_of(sch) };
+                    let sig = ctx.sk.sign(scheme_of(sch), &ctx.tc_id).unwrap_or(ctx.tc_sig);
+                    let det = json!({"impl": CODEC_IMPL, "w_len": len, "scheme": gen::SCH[sch as usize], "ciphertext": hex::encode(Vec::<u8>::from(&tc)), "signature": hex::encode(Vec::<u8>::from(&sig))});
+                    rec.case("time_crypt_ciphertext_decrypt_short_w", key.clone(), codec_catch(|| { let _ = tc.decrypt(&sig); }).is_ok(), det.clone());
+                    rec.case("time_crypt_ciphertext_decrypt_short_w", format!("{key}|other_scheme"), codec_catch(|| { let _ = tc.decrypt(&ctx.sigs[(sch as usize + 1) % 3]); }).is_ok(), det);
+                }
+            }
+            // one- and two-byte payloads under many different keystreams (the keystream may start with a zero byte)
+            let n = if thorough { 768 } else { 96 };
+            for t in 0..n {
+                let len = 1 + t % 2;
+                let k = rng.scalar();
+                let v = rng.bytes(len);
+                let key_pt = SignCryptDecryptionKey::<C>(codec_pk_of(&k));
+                let ct = SignCryptCiphertext::<C> { u: ctx.sc.u, v, w: ctx.sc.w, scheme: SignatureSchemes::Basic };
+                let det = json!({"impl": CODEC_IMPL, "v_len": len, "ciphertext": hex::encode(Vec::<u8>::from(&ct)), "decryption_key": hex::encode(Vec::<u8>::from(&key_pt))});
+                rec.case("sign_crypt_decryption_key_decrypt_tiny_v_any_key", format!("{t}"), codec_catch(|| { let _ = key_pt.decrypt(&ct); }).is_ok(), det);
+                let mut v32 = [0u8; 32];
+                v32.copy_from_slice(&rng.bytes(32));
+                let tc = TimeCryptCiphertext::<C> { u: ctx.tc.u, v: v32, w: rng.bytes(len), scheme: SignatureSchemes::Basic };
+                let det = json!({"impl": CODEC_IMPL, "w_len": len, "ciphertext": hex::encode(Vec::<u8>::from(&tc)), "signature": hex::encode(Vec::<u8>::from(&ctx.tc_sig))});
+                rec.case("time_crypt_ciphertext_decrypt_tiny_w_any_v", format!("{t}"), codec_catch(|| { let _ = tc.decrypt(&ctx.tc_sig); }).is_ok(), det);
+            }
+        }
+
+        pub fn c17(s: &mut Search, rng: &mut Prng, thorough: bool) {
+            let mut rec = CodecRec::new(s, CODEC_IMPL, 1);
+            let Some(ctx) = codec_ctx(rng) else {
+                rec.case("codec_companions_panicked", "ctx".into(), false, json!({"impl": CODEC_IMPL}));
+                return;
+            };
+            let tys = codec_types(rng, if thorough { 1 } else { 0 }, thorough, &ctx);
+            let ntys = if G1 { codec_nongeneric_types(rng, if thorough { 1 } else { 0 }, thorough) } else { vec![] };
+            codec_run_c17_binary(&mut rec, rng, &tys, thorough);
+            codec_run_c17_binary(&mut rec, rng, &ntys, thorough);
+            codec_c17_scalar_type!(rec, SecretKey, "secret_key");
+            codec_c17_scalar_type!(rec, ProofCommitmentSecret, "proof_commitment_secret");
+            codec_c17_scalar_type!(rec, ProofCommitmentChallenge, "proof_commitment_challenge");
+            if G1 {
+                codec_c17_secret_key_enum(&mut rec, rng);
+            }
+            codec_c17_timestamps(&mut rec, &ctx);
+            codec_c17_short_payloads(&mut rec, rng, &ctx, thorough);
+            // JSON last: its known failures (hex fields handed unvalidated to the curve crate) are the most numerous
+            codec_run_c17_json(&mut rec, rng, &tys, thorough);
+            codec_run_c17_json(&mut rec, rng, &ntys, thorough);
+            rec.finish();
+        }
     };
 }
